@@ -1,278 +1,1505 @@
 """C06 — parallel mergesort: temporaries destroyed, barrier phases / balance, fork/join,
-Stable propagation, sample index bound (equally_split clamp)."""
-from engine import ir, dtable, match, cfg as cfgm
+Stable propagation, sample index bound (equally_split clamp).
+
+Verdict discipline of this file: a violation is reported only on positive evidence - a concrete evaluation (TEMP-DESTROY:
+"for a chunk of 3 elements the elements [0, 1] are destroyed"; SPLIT-INDEX-BOUND: the positions written / read), a path in
+the CFG that is feasible for a valid splitting algorithm (BARRIER-PHASES, TEMP-DESTROY:path), two branches of a
+thread-dependent condition that cross a different number of barriers (BARRIER-BALANCE), a live call of an unstable
+algorithm (STABLE-PROPAGATE).  "The expected shape was not found" is Undecidable (exit 2), and so is every operation on the
+guarded objects (sd->temporary, sd->pieces, the barrier, the raw buffer) whose kind is not recognised.
+
+Roles are taken from the interface, never from names of locals: sd / barrier / mwmsa by parameter type, the thread index as
+the argument that changes between the spawns of the worker threads, the raw buffer as the value of the operator new call."""
+from engine import ir, dtable, match, cfg as cfgm, skel
 from engine.ir import kids, strip_casts, const_int, ref_of
 from rules.parcommon import check_fork_join
 
 PU = "tlx::parallel_mergesort_detail::parallel_sort_mwms_pu"
 BASE = "tlx::parallel_mergesort_base"
+SD_RECORD = "PMWMSSortingData"
+VALID_MWMSA = (0, 1)             # MWMSA_SAMPLING, MWMSA_EXACT: the splitting algorithms a caller may ask for
+
+INDEP, UNKNOWN, DEP = 0, 1, 2    # thread dependence of a value: same for all threads / not known / mentions the thread index
+ASSIGN_OPS = ("=", "+=", "-=", "*=", "/=", "%=", "|=", "&=", "^=", ">>=", "<<=")
+LOOPS = ("ForStmt", "WhileStmt", "DoStmt")
+# standard algorithms that take their iterator / value arguments without keeping a reference to them and without destroying elements
+BYVALUE_CALLS = {"sort", "stable_sort", "lower_bound", "upper_bound", "equal_range", "binary_search", "uninitialized_copy", "uninitialized_copy_n",
+                 "uninitialized_move", "uninitialized_move_n", "uninitialized_fill", "uninitialized_fill_n", "destroy", "destroy_n", "destroy_at",
+                 "make_pair", "pair", "min", "max", "distance", "next", "prev", "operator new", "operator delete", "is_sorted", "addressof",
+                 "copy", "copy_n", "move", "forward", "merge", "inplace_merge", "partial_sort", "nth_element", "sort_heap", "make_heap"}
+READ_OPS = ("+", "-", "*", "/", "%", "<", ">", "<=", ">=", "==", "!=", "[]", "&&", "||", "!", "<<", ">>", "&", "|", "^", "()")
+CONSTRUCTS = ("uninitialized_copy", "uninitialized_copy_n", "uninitialized_move", "uninitialized_move_n", "uninitialized_fill", "uninitialized_fill_n")
+INT_TYPES = ("unsigned long", "long", "int", "unsigned int", "size_t", "unsigned long long", "long long", "std::size_t")
+UNSTABLE_SORTS = ("sort", "partial_sort", "nth_element", "sort_heap")
+STABLE_SORTS = ("stable_sort",)
 
 
-def slot_index(e, field):
-    """index expression X if e is sd->field[X] (any depth of further indexing below)"""
-    e = strip_casts(e)
-    p = match.index_parts(e)
-    while p:
-        f = match.field_of(p[0])
-        if f and f[1] == field and ir.ref_name(f[0]) == "sd":
-            return p[1]
-        e = strip_casts(p[0])
-        p = match.index_parts(e)
+def und(fn, node, what):
+    return dtable.Undecidable("%s: %s" % (fn.nloc(node) if node is not None else fn.loc, what))
+
+
+def is_const_ty(ty):
+    t = (ty or "").strip()
+    return t.startswith("const ") or t.endswith(" const") or "*const" in t.replace(" ", "")
+
+
+def is_ref_ty(ty):
+    return (ty or "").rstrip().endswith("&")
+
+
+def is_ptr_ty(ty):
+    t = (ty or "").replace(" ", "")
+    return t.endswith("*") or t.endswith("*const")
+
+
+def contains(root, node):
+    return any(y is node for y in ir.walk(root))
+
+
+def std_call(x, names):
+    return x is not None and "callee" in x and x["callee"]["name"] in names and (x["callee"].get("qname") or "").startswith("std::")
+
+
+def is_dtor_op(x):
+    """explicit destructor call, pseudo destructor call, std::destroy / destroy_n / destroy_at"""
+    if x["k"] == "CXXPseudoDestructorExpr":
+        return True
+    if "callee" in x and x["callee"]["name"].startswith("~"):
+        return True
+    if "callee" in x and x["callee"]["name"] in ("destroy", "destroy_n", "destroy_at"):
+        return True
+    return False
+
+
+# ------------------------------------------------------------------------------------------------ locals
+class Locals:
+    """declarations, direct writes and exposure (address taken, bound to a reference, handed to a call that may keep a
+    reference) of the locals / parameters of one function; `resolve` looks through locals that keep their initial value"""
+
+    def __init__(self, tu, fn):
+        self.tu, self.fn = tu, fn
+        self.decl = {}
+        self.writes = {}
+        self.exposed = set()
+        for y in fn.nodes():
+            if y["k"] == "VarDecl" and y.get("did") is not None:
+                self.decl[y["did"]] = y
+                if is_ref_ty(y.get("ty")) and kids(y) and ref_of(kids(y)[0]) is not None and not is_const_ty(y.get("ty")):
+                    self.exposed.add(ref_of(kids(y)[0]))
+            w = match.unop(y, ("++", "--"))
+            if not w and y["k"] in ("BinaryOperator", "CompoundAssignOperator", "CXXOperatorCallExpr"):
+                w = match.binop(y, ASSIGN_OPS)
+            if w:
+                d = ref_of(w[1])
+                if d is not None:
+                    self.writes.setdefault(d, []).append(y)
+            if y["k"] == "UnaryOperator" and y.get("op") == "&" and ref_of(kids(y)[0]) is not None:
+                self.exposed.add(ref_of(kids(y)[0]))
+            if y["k"] == "LambdaExpr":
+                lf = tu.by_did.get(y.get("fn"))
+                for c in y.get("captures", []):
+                    if c.get("byref") and c.get("id") is not None and (lf is None or c["id"] in self.touched_in(lf)):
+                        self.exposed.add(c["id"])
+            self.exposed |= self.handed_out(y)
+
+    def handed_out(self, y):
+        """variables that the call y may keep a reference to / modify through a reference parameter"""
+        out = set()
+        if "callee" in y and not self.harmless_call(y):
+            cal = self.tu.by_did.get(y["callee"].get("did"))
+            args = kids(y)[1:] if y.get("member_call") else kids(y)
+            for i, a in enumerate(args):
+                if a is None or a["k"] != "DeclRefExpr":
+                    continue            # wrapped in a conversion: passed by value
+                if cal is not None and y["k"] != "CXXOperatorCallExpr" and i < len(cal.params):
+                    ty = cal.params[i].get("ty") or ""
+                    if not is_ref_ty(ty) or ty.strip().startswith("const "):
+                        continue
+                out.add(a["ref"]["id"])
+        return out
+
+    def touched_in(self, lf):
+        """variables of the enclosing function that a lambda body writes, takes the address of or hands out"""
+        out = set()
+        for y in lf.nodes():
+            w = match.unop(y, ("++", "--"))
+            if not w and y["k"] in ("BinaryOperator", "CompoundAssignOperator", "CXXOperatorCallExpr"):
+                w = match.binop(y, ASSIGN_OPS)
+            if w and ref_of(w[1]) is not None:
+                out.add(ref_of(w[1]))
+            if y["k"] == "UnaryOperator" and y.get("op") == "&" and ref_of(kids(y)[0]) is not None:
+                out.add(ref_of(kids(y)[0]))
+            if y["k"] == "LambdaExpr":
+                out |= {c["id"] for c in y.get("captures", []) if c.get("byref") and c.get("id") is not None}
+            out |= self.handed_out(y)
+        return out
+
+    @staticmethod
+    def harmless_call(y):
+        if y["k"] == "CXXOperatorCallExpr":
+            return y.get("op") in READ_OPS
+        return y["callee"]["name"] in BYVALUE_CALLS and ((y["callee"].get("qname") or "").startswith("std::") or
+                                                        y["callee"]["name"].startswith("operator "))
+
+    def frozen(self, d):
+        """the local holds the value of its initialiser wherever it is in scope"""
+        v = self.decl.get(d)
+        if v is None or not kids(v) or kids(v)[0] is None:
+            return False
+        if is_ref_ty(v.get("ty")):
+            return True                 # a reference names the object it was bound to
+        if d in self.writes:
+            return False
+        return is_const_ty(v.get("ty")) or d not in self.exposed
+
+    def resolve(self, e):
+        e = strip_casts(e)
+        for _ in range(12):
+            d = ref_of(e)
+            if d is None or not self.frozen(d):
+                break
+            e = strip_casts(kids(self.decl[d])[0])
+        return e
+
+    def param_unchanged(self, d):
+        return d not in self.writes and d not in self.exposed
+
+
+# ------------------------------------------------------------------------------------------------ roles
+def thread_index_param(tu, fn):
+    """the parameter of the worker that receives the value that differs between the spawned threads: the argument, at the
+    call inside the thread lambda, that refers to a variable written in the loop that spawns the threads"""
+    found = set()
+    seen_call = False
+    for f in tu.functions:
+        if f.body is None:
+            continue
+        for lam in [x for x in f.nodes() if x["k"] == "LambdaExpr"]:
+            lf = tu.by_did.get(lam.get("fn"))
+            if lf is None:
+                continue
+            calls = [c for c in lf.nodes() if "callee" in c and c["callee"].get("did") == fn.did]
+            if not calls:
+                continue
+            seen_call = True
+            loop = f.parent(lam)
+            while loop is not None and loop["k"] not in LOOPS:
+                loop = f.parent(loop)
+            if loop is None:
+                raise und(f, lam, "worker thread is not started in a loop: thread index of %s not identified" % fn.name)
+            varying = set()
+            for y in ir.walk(loop):
+                if y["k"] == "VarDecl" and y.get("did") is not None and loop["k"] == "ForStmt" and kids(loop)[0] is not None and contains(kids(loop)[0], y):
+                    varying.add(y["did"])
+                w = match.unop(y, ("++", "--")) or (match.binop(y, ASSIGN_OPS) if y["k"] in ("BinaryOperator", "CompoundAssignOperator", "CXXOperatorCallExpr") else None)
+                if w and ref_of(w[1]) is not None:
+                    varying.add(ref_of(w[1]))
+            for c in calls:
+                args = kids(c)
+                if len(args) != len(fn.params):
+                    raise und(lf, c, "call of %s with %d arguments" % (fn.name, len(args)))
+                for i, a in enumerate(args):
+                    if any(y["k"] == "DeclRefExpr" and y["ref"]["id"] in varying for y in ir.walk(a)):
+                        found.add(i)
+    if not seen_call:
+        raise dtable.Undecidable("%s: no thread lambda calls %s: thread index not identified" % (fn.loc, fn.name))
+    if len(found) != 1:
+        raise dtable.Undecidable("%s: %d arguments of %s vary between the spawned threads: thread index not identified" % (fn.loc, len(found), fn.name))
+    return fn.params[found.pop()]["did"]
+
+
+class Roles:
+    def __init__(self, tu, fn):
+        self.tu, self.fn = tu, fn
+        self.L = Locals(tu, fn)
+
+        def by_type(pred, what):
+            ps = [p for p in fn.params if pred(p.get("ty") or "")]
+            if len(ps) != 1:
+                raise dtable.Undecidable("%s: %s parameter not identified" % (fn.loc, what))
+            return ps[0]["did"]
+        self.sd = by_type(lambda t: SD_RECORD in t and t.rstrip().endswith("*"), "sorting data")
+        self.barrier = by_type(lambda t: "ThreadBarrier" in t, "barrier")
+        self.mwmsa = by_type(lambda t: "MultiwayMergeSplittingAlgorithm" in t, "splitting algorithm")
+        self.iam = thread_index_param(tu, fn)
+        for d, what in ((self.sd, "sorting data pointer"), (self.iam, "thread index"), (self.mwmsa, "splitting algorithm")):
+            if not self.L.param_unchanged(d):
+                raise dtable.Undecidable("%s: the %s parameter is modified" % (fn.loc, what))
+
+    # ---- sd->field, sd->field[idx]
+    def sd_field(self, e):
+        f = match.field_of(self.L.resolve(e))
+        if not f:
+            return None
+        b = self.L.resolve(f[0])
+        d = match.deref_of(b)
+        if d is not None:
+            b = self.L.resolve(d)
+        return f[1] if ref_of(b) == self.sd else None
+
+    def slot(self, e):
+        """(field, index expression) if e is sd->field[index]"""
+        p = match.index_parts(self.L.resolve(e))
+        if p:
+            m = self.sd_field(p[0])
+            if m:
+                return m, p[1]
+        return None
+
+    def lin_iam(self, e, depth=0):
+        """(coefficient of the thread index, constant) if e is  k * iam + c  over the integers, else None"""
+        e = self.L.resolve(match.strip_conv(e))
+        if e is None or depth > 8:
+            return None
+        c = const_int(e)
+        if c is not None:
+            return 0, c
+        if ref_of(e) == self.iam:
+            return 1, 0
+        b = match.binop(e, ("+", "-")) if e["k"] == "BinaryOperator" else None
+        if b:
+            l, r = self.lin_iam(b[1], depth + 1), self.lin_iam(b[2], depth + 1)
+            if l is None or r is None:
+                return None
+            sg = 1 if b[0] == "+" else -1
+            return l[0] + sg * r[0], l[1] + sg * r[1]
+        return None
+
+    def is_iam(self, e):
+        return self.lin_iam(e) == (1, 0)
+
+
+# ------------------------------------------------------------------------------------------------ thread dependence
+class Dep:
+    """classifies values as INDEP (built from constants, the thread-independent value parameters and locals that are only
+    ever defined from such values under such conditions), DEP (mentions the thread index) or UNKNOWN (memory, calls)"""
+
+    def __init__(self, R):
+        self.R, self.fn, self.L = R, R.fn, R.L
+        self.loc = {}
+        self._ctrl = {}
+        defs = {}
+        for d, v in self.L.decl.items():
+            defs.setdefault(d, [])
+            if kids(v) and kids(v)[0] is not None:
+                defs[d].append((v, kids(v)[0]))
+        for d, ws in self.L.writes.items():
+            for w in ws:
+                u = match.unop(w, ("++", "--"))
+                defs.setdefault(d, []).append((w, None if u else match.binop(w, ASSIGN_OPS)[2]))
+        self.params = {p["did"]: p for p in self.fn.params}
+        for _ in range(10):
+            changed = False
+            for d, dl in defs.items():
+                if d in self.params:
+                    c = DEP if d == R.iam else (INDEP if not is_ref_ty(self.params[d].get("ty")) else UNKNOWN)
+                else:
+                    c = INDEP if dl else UNKNOWN      # declared without a value and never assigned: filled through a reference
+                if d in self.L.exposed and not is_const_ty((self.L.decl.get(d) or self.params.get(d) or {}).get("ty")):
+                    c = max(c, UNKNOWN)
+                for node, rhs in dl:
+                    c = max(c, self.ctrl(node))
+                    if rhs is not None:
+                        c = max(c, self.cls(rhs))
+                if self.loc.get(d, INDEP) != c:
+                    self.loc[d] = c
+                    changed = True
+            self._ctrl = {}
+            if not changed:
+                break
+
+    def cls(self, e):
+        if e is None:
+            return INDEP
+        if const_int(e) is not None:
+            return INDEP
+        c = INDEP
+        for y in ir.walk(e):
+            k = y["k"]
+            if k == "DeclRefExpr":
+                r = y["ref"]
+                if r["id"] == self.R.iam:
+                    return DEP
+                if r.get("kind") == "enumconst" or const_int(y) is not None:
+                    continue
+                if r["id"] in self.loc:
+                    c = max(c, self.loc[r["id"]])
+                elif r["id"] in self.params:
+                    c = max(c, INDEP if not is_ref_ty(self.params[r["id"]].get("ty")) else UNKNOWN)
+                elif r["id"] in self.L.decl:
+                    c = max(c, INDEP)          # optimistic start of the fixpoint
+                else:
+                    c = max(c, UNKNOWN)        # a global
+            elif k in ("MemberExpr", "ArraySubscriptExpr", "This", "LambdaExpr", "CXXNewExpr"):
+                c = max(c, UNKNOWN)
+            elif k == "UnaryOperator" and y.get("op") in ("*", "&"):
+                c = max(c, UNKNOWN)
+            elif "callee" in y:
+                if y["k"] == "CXXOperatorCallExpr" and y.get("op") in READ_OPS and y.get("op") not in ("[]", "*", "()"):
+                    continue
+                if std_call(y, ("min", "max")):
+                    continue
+                c = max(c, UNKNOWN)
+            elif k == "CallExpr":
+                c = max(c, UNKNOWN)
+        return c
+
+    def ctrl(self, node):
+        """thread dependence of the conditions that decide whether `node` is executed"""
+        if node["id"] in self._ctrl:
+            return self._ctrl[node["id"]]
+        c = INDEP
+        n, par = node, self.fn.parent(node)
+        while par is not None:
+            k = par["k"]
+            if k == "IfStmt":
+                if not contains(kids(par)[0], n) and n is not kids(par)[0]:
+                    c = max(c, self.cls(kids(par)[0]))
+            elif k in LOOPS:
+                init, cond, inc, body = match.loop_parts(par)
+                if n is not init and not (init is not None and contains(init, n)):
+                    c = max(c, self.cls(cond) if cond is not None else INDEP)
+            elif k == "ConditionalOperator":
+                if n is not kids(par)[0]:
+                    c = max(c, self.cls(kids(par)[0]))
+            elif k == "BinaryOperator" and par.get("op") in ("&&", "||"):
+                if n is kids(par)[1]:
+                    c = max(c, self.cls(kids(par)[0]))
+            elif k == "SwitchStmt":
+                if n is not kids(par)[0]:
+                    c = max(c, self.cls(kids(par)[0]))
+            elif k in ("CXXForRangeStmt", "CXXTryStmt", "CXXCatchStmt"):
+                c = max(c, UNKNOWN)
+            n, par = par, self.fn.parent(par)
+        self._ctrl[node["id"]] = c
+        return c
+
+
+# ------------------------------------------------------------------------------------------------ CFG helpers
+def find_path(g, a, b, avoid, blocked=()):
+    """blocks of a path from just after position a (None: the function entry) to position b that passes no position of
+    `avoid` and takes no edge of `blocked`; None if there is none"""
+    if a is None:
+        a = (g.entry, -1)
+    return g.path_between_avoiding(a, b, [p for p in avoid if p is not None], blocked)
+
+
+def lazy_locals(L):
+    """`unknown` callback for the skeleton: a local that keeps its initial value is read through"""
+    busy = set()
+
+    def unknown(e, sk):
+        e0 = strip_casts(e)
+        if e0 is None or e0["k"] != "DeclRefExpr":
+            return None
+        d = e0["ref"]["id"]
+        v = L.decl.get(d)
+        if v is None or d in busy or not L.frozen(d) or is_ref_ty(v.get("ty")):
+            return None
+        busy.add(d)
+        try:
+            return sk.ev(kids(v)[0])
+        finally:
+            busy.discard(d)
+    return unknown
+
+
+def infeasible_edges(fn, g, L, env):
+    """-> (edges, open_blocks).  edges: CFG edges that are not taken when the given parameters have the given values (the
+    condition that ends a block is evaluated on the integer skeleton; a condition that depends on anything else blocks
+    nothing).  open_blocks: blocks whose condition mentions one of these parameters but could not be evaluated - a path that
+    branches there is not known to be feasible"""
+    out, open_blocks = [], set()
+
+    def mentions(node):
+        for y in ir.walk(node):
+            if y["k"] == "DeclRefExpr" and (y["ref"]["id"] in env or ref_of(L.resolve(y)) in env or
+                                            (L.resolve(y) is not y and any(z["k"] == "DeclRefExpr" and z["ref"]["id"] in env for z in ir.walk(L.resolve(y))))):
+                return True
+        return False
+    for bid, b in g.blocks.items():
+        succ = b.get("succ", [])
+        if b.get("cond") is None or len([s_ for s_ in succ if s_ is not None]) < 2:
+            continue
+        node = fn.byid(b["cond"])
+        if node is None:
+            continue
+        try:
+            v = skel.Skel(fn, dict(env), lazy_locals(L), None).ev(node)
+        except dtable.Undecidable:
+            v = None
+        if not isinstance(v, (bool, int)):
+            if mentions(node):
+                open_blocks.add(bid)
+            continue
+        if b.get("termk") == "SwitchStmt":
+            labels = {}
+            for s_ in succ:
+                lab = fn.byid(g.blocks[s_].get("label")) if s_ is not None and g.blocks[s_].get("label") is not None else None
+                labels[s_] = lab
+            cases = {s_: lab for s_, lab in labels.items() if lab is not None and lab["k"] == "CaseStmt"}
+            rest = [s_ for s_, lab in labels.items() if s_ not in cases]
+            if len(rest) > 1 or any("val" not in lab or len([c for c in kids(lab) if c is not None]) > 1 and False for lab in cases.values()):
+                open_blocks.add(bid)
+                continue
+            hit = [s_ for s_, lab in cases.items() if lab.get("val") == int(v)]
+            keep = hit if hit else rest
+            out += [(bid, s_) for s_ in succ if s_ is not None and s_ not in keep]
+            continue
+        if len(succ) != 2:
+            continue
+        dead = succ[1] if v else succ[0]
+        if dead is not None:
+            out.append((bid, dead))
+    return out, open_blocks
+
+
+def entry_pos(fn, g, stmt):
+    """the position that is evaluated first whenever `stmt` is executed"""
+    ps = []
+    for x in ir.walk(stmt):
+        p = g.pos(x)
+        if p is not None and p not in ps:
+            ps.append(p)
+    for p in ps:
+        if all(p == q or g.dominates(p, q) for q in ps):
+            return p
     return None
 
 
-def check_temp_destroy(ck, fn, tag):
-    g = cfgm.CFG(fn)
-    news = [x for x in fn.nodes() if "callee" in x and x["callee"]["name"] == "operator new" and x["k"] == "CallExpr"]
-    dels = [x for x in fn.nodes() if "callee" in x and x["callee"]["name"] == "operator delete" and x["k"] == "CallExpr"]
-    constructs = [x for x in fn.nodes() if "callee" in x and x["callee"]["name"] in ("uninitialized_copy", "uninitialized_copy_n", "uninitialized_move", "uninitialized_fill")]
-    ck.require(len(news) == 1 and len(dels) == 1 and len(constructs) == 1, "%s: raw buffer life cycle not recognised" % fn.loc)
-    buf = slot_index(kids(dels[0])[0], "temporary")
-    ck.require(buf is not None and ir.ref_name(buf) == "iam", "%s: released buffer is not temporary[iam]" % fn.loc)
-    # number of constructed elements
-    src_b, src_e = kids(constructs[0])[0], kids(constructs[0])[1]
-    # destruction: explicit destructor loop over [0, length) on temporary[iam], or std::destroy / destroy_n
-    destroyed = None
+# ------------------------------------------------------------------------------------------------ raw buffer life cycle
+class Life:
+    """the raw buffer of one worker: operator new -> uninitialized_copy -> ... -> destructors -> operator delete.
+    Addresses are evaluated on the integer skeleton: the operator new call yields BUF, sd->starts[] a fixed partition in
+    which this thread's chunk has the chosen length, sd->source a base address, sd->temporary[k] the buffer of thread k
+    (BUF for this thread once the slot has been assigned).  Locals that keep their initial value are read through."""
+    BUF, SRC, OTHER, IAM = 5000, 100000, 20000, 1
+    OTHER_INT = 3                 # value of the other integer parameters (the thread count) at the evaluated grid point
+
+    def __init__(self, R, g):
+        self.R, self.fn, self.L, self.g = R, R.fn, R.L, g
+        fn = self.fn
+        self.params = {p["did"]: p for p in fn.params}
+        self.news = [x for x in fn.nodes() if x["k"] == "CallExpr" and "callee" in x and x["callee"]["name"] == "operator new"]
+        self.dels = [x for x in fn.nodes() if x["k"] == "CallExpr" and "callee" in x and x["callee"]["name"] == "operator delete"]
+        self.constructs = [x for x in fn.nodes() if ("callee" in x and x["callee"]["name"] in CONSTRUCTS) or
+                           (x["k"] == "CXXNewExpr" and x.get("placement") and not x.get("array"))]
+        self.dtor_ops = []
+        for x in fn.nodes():
+            if is_dtor_op(x):
+                self.dtor_ops.append(x)
+        # sd->temporary[iam] = <buffer>
+        self.stores = []
+        for x in fn.nodes():
+            b = match.binop(x, ("=",)) if x["k"] in ("BinaryOperator", "CXXOperatorCallExpr") else None
+            s = R.slot(b[1]) if b else None
+            if s and s[0] == "temporary":
+                self.stores.append((x, s[1], b[2]))
+
+    def unit_of(self, x):
+        """the statement of the function body that holds x"""
+        n, par = x, self.fn.parent(x)
+        while par is not None and par is not self.fn.body:
+            n, par = par, self.fn.parent(par)
+        return n if par is self.fn.body else None
+
+    def starts(self, k, length):
+        return sum(length if j == self.IAM else length + 2 + j for j in range(k))
+
+    def run(self, length, units=(), exprs=()):
+        """evaluates the given statements of the function body (in order) and then the given expressions for a chunk of
+        `length` elements -> (events, values); events: ('dtor', address) / ('free', address) / ('construct', dest, count)"""
+        R, L, fn, g = self.R, self.L, self.fn, self.g
+        events = []
+        busy = set()
+        inside = set()
+        for u in units:
+            inside |= {y["id"] for y in ir.walk(u)}
+        own_store = [s for s in self.stores if R.is_iam(s[1])]
+
+        def addr(v):
+            if isinstance(v, tuple) and len(v) == 2 and v[0] == "ptr":
+                v = v[1]
+            if isinstance(v, tuple) and len(v) == 2 and v[0] == "mem":
+                v = v[1]
+            return v if isinstance(v, int) and not isinstance(v, bool) else None
+
+        def obj_addr(base, sk):
+            """address of the object a destructor is called on"""
+            b0 = strip_casts(base)
+            if is_ptr_ty(b0.get("ty")):
+                return addr(sk.ev(base))
+            ip = match.index_parts(b0)
+            if ip and is_ptr_ty(strip_casts(ip[0]).get("ty")):
+                a, i = addr(sk.ev(ip[0])), sk.ev(ip[1])
+                return a + i if a is not None and isinstance(i, int) and not isinstance(i, bool) else None
+            d = match.deref_of(b0)
+            if d is not None:
+                return addr(sk.ev(d))
+            return addr(sk.lvalue(base))
+
+        def unknown(e, sk):
+            e0 = strip_casts(e)
+            if e0 is None or e0["k"] != "DeclRefExpr":
+                return None
+            d = e0["ref"]["id"]
+            pr = self.params.get(d)
+            if pr is not None and d != R.iam and L.param_unchanged(d) and (pr.get("ty") or "").replace("const ", "").strip() in INT_TYPES:
+                return self.OTHER_INT
+            v = L.decl.get(d)
+            if v is None or not kids(v) or kids(v)[0] is None or d in busy:
+                return None
+            ws = L.writes.get(d, [])
+            if not (L.frozen(d) or (d not in L.exposed and ws and all(w["id"] in inside for w in ws) and v["id"] not in inside)):
+                return None
+            # the initialiser is evaluated where the local is used: its own operands must keep their values
+            for y in ir.walk(kids(v)[0]):
+                if y["k"] == "DeclRefExpr" and y["ref"]["id"] != d:
+                    yd = y["ref"]["id"]
+                    if (yd in L.decl and not L.frozen(yd)) or (yd in self.params and not L.param_unchanged(yd) and not is_ref_ty(self.params[yd].get("ty"))):
+                        return None
+            busy.add(d)
+            try:
+                init = kids(v)[0]
+                if is_ref_ty(v.get("ty")):
+                    key = sk.lvalue(init)
+                    if key is not None:
+                        sk.alias[d] = key
+                        return sk.load(key)
+                val = sk.ev(init)
+                sk.env[d] = val
+                return val
+            finally:
+                busy.discard(d)
+
+        def event(e, sk):
+            k = e["k"]
+            if k in ("DeclRefExpr", "IntegerLiteral", "ImplicitCastExpr"):
+                return NotImplemented
+            if k == "MemberExpr":
+                if R.sd_field(e) == "source":
+                    return self.SRC
+                return NotImplemented
+            s = R.slot(e) if k in ("ArraySubscriptExpr", "CXXOperatorCallExpr", "CXXMemberCallExpr") else None
+            if s:
+                kx = sk.ev(s[1])
+                if not isinstance(kx, int) or isinstance(kx, bool):
+                    return None
+                if s[0] == "starts":
+                    return self.starts(kx, length)
+                if s[0] == "temporary":
+                    if kx != self.IAM:
+                        return self.OTHER + 1000 * kx
+                    pe = g.pos_deep(e)
+                    for (st, _, rhs) in own_store:
+                        ps = g.pos_deep(st)
+                        if ps is not None and pe is not None and g.dominates(ps, pe) and addr(sk.ev(rhs)) == self.BUF:
+                            return self.BUF
+                    return None
+                return None
+            b = match.binop(e, ("=",)) if k in ("BinaryOperator", "CXXOperatorCallExpr") else None
+            if b and R.slot(b[1]):
+                sk.ev(b[2])
+                return None
+            if k == "CallExpr" and "callee" not in e and kids(e) and kids(e)[0] is not None and kids(e)[0]["k"] == "CXXPseudoDestructorExpr":
+                return event(kids(e)[0], sk)
+            if k == "CXXPseudoDestructorExpr" or ("callee" in e and e["callee"]["name"].startswith("~")):
+                events.append(("dtor", obj_addr(kids(e)[0], sk) if kids(e) else None, e))
+                return None
+            if "callee" not in e:
+                return NotImplemented
+            name = e["callee"]["name"]
+            args = [a for a in kids(e) if a is not None and a["k"] != "DefaultArg"]
+            if k == "CXXNewExpr":
+                if e.get("placement") and not e.get("array") and kids(e):
+                    a0 = addr(sk.ev(kids(e)[0]))
+                    events.append(("construct", a0, 1, e))
+                    return a0
+                return None
+            if name == "operator new":
+                return self.BUF if self.news and e is self.news[0] else None
+            if name == "operator delete":
+                events.append(("free", addr(sk.ev(args[0])) if args else None, e))
+                return None
+            if name in ("destroy", "destroy_n", "destroy_at"):
+                a = [addr(sk.ev(x)) if i == 0 or name == "destroy" else sk.ev(x) for i, x in enumerate(args)]
+                if name == "destroy" and len(a) == 2 and all(isinstance(x, int) for x in a):
+                    events.extend(("dtor", z, e) for z in range(a[0], a[1]))
+                elif name == "destroy_n" and len(a) == 2 and all(isinstance(x, int) for x in a):
+                    events.extend(("dtor", z, e) for z in range(a[0], a[0] + a[1]))
+                elif name == "destroy_at" and len(a) == 1 and isinstance(a[0], int):
+                    events.append(("dtor", a[0], e))
+                else:
+                    events.append(("dtor", None, e))
+                return None
+            if name in CONSTRUCTS:
+                a = [sk.ev(x) for x in args]
+                if name in ("uninitialized_copy", "uninitialized_move") and len(a) >= 3:
+                    dest, cnt = addr(a[2]), (addr(a[1]) - addr(a[0]) if addr(a[0]) is not None and addr(a[1]) is not None else None)
+                elif name in ("uninitialized_copy_n", "uninitialized_move_n") and len(a) >= 3:
+                    dest, cnt = addr(a[2]), a[1] if isinstance(a[1], int) else None
+                elif name == "uninitialized_fill" and len(a) >= 2:
+                    dest, cnt = addr(a[0]), (addr(a[1]) - addr(a[0]) if addr(a[0]) is not None and addr(a[1]) is not None else None)
+                elif name == "uninitialized_fill_n" and len(a) >= 2:
+                    dest, cnt = addr(a[0]), a[1] if isinstance(a[1], int) else None
+                else:
+                    dest, cnt = None, None
+                events.append(("construct", dest, cnt, e))
+                return (dest + cnt) if dest is not None and cnt is not None else None
+            if name in ("next", "prev") and std_call(e, ("next", "prev")) and args:
+                a0 = addr(sk.ev(args[0]))
+                n_ = sk.ev(args[1]) if len(args) > 1 else 1
+                if a0 is None or not isinstance(n_, int):
+                    return None
+                return a0 + n_ if name == "next" else a0 - n_
+            if name == "distance" and std_call(e, ("distance",)) and len(args) == 2:
+                a0, a1 = addr(sk.ev(args[0])), addr(sk.ev(args[1]))
+                return a1 - a0 if a0 is not None and a1 is not None else None
+            if name == "addressof" and args:
+                return addr(sk.lvalue(args[0]))
+            if e["k"] == "CXXOperatorCallExpr" or name in ("min", "max"):
+                return NotImplemented
+            # any other call: its arguments are evaluated, its body is not entered; a call that receives a pointer into the
+            # raw buffer and is not known to leave the elements alive makes the life cycle undecidable
+            vals = [addr(sk.ev(a)) for a in args]
+            if any(isinstance(v, int) and self.BUF <= v <= self.BUF + max(length, 0) + 1 for v in vals) and not Locals.harmless_call(e):
+                raise und(fn, e, "%s() receives a pointer into the raw buffer: effect on the temporaries not known" % name)
+            return None
+
+        sk = skel.Skel(fn, {R.iam: self.IAM}, unknown, event, max_iter=24)
+        for u in units:
+            try:
+                sk.stmt(u)
+            except skel.Return:
+                raise und(fn, u, "return inside the statement that destroys the temporaries")
+        vals = [sk.ev(x) for x in exprs]
+        return events, [addr(v) if not isinstance(v, bool) else v for v in vals]
+
+    def value(self, e, length=3):
+        """address / integer value of an expression for a chunk of `length` elements (None: data)"""
+        try:
+            return self.run(length, (), (e,))[1][0]
+        except dtable.Undecidable:
+            return None
+
+
+def foreign_field_uses(tu, R, fields):
+    """uses of sd->temporary / sd->pieces that the rules of this file do not follow: in callees that receive sd, in lambdas
+    that capture it, and in the worker itself outside a subscript -> list of (node, text)"""
+    fn, out = R.fn, []
+
+    def mentions(f, depth=0):
+        bad = [y for y in f.nodes() if y["k"] == "MemberExpr" and y.get("member") in fields and SD_RECORD in (y.get("owner") or "")]
+        if bad:
+            return bad[0]
+        if depth < 4:
+            for c in f.nodes():
+                if "callee" in c and any(a is not None and SD_RECORD in (a.get("ty") or "") for a in kids(c)):
+                    cal = tu.by_did.get(c["callee"].get("did"))
+                    if cal is not None and cal.body is not None and cal is not f:
+                        m = mentions(cal, depth + 1)
+                        if m is not None:
+                            return m
+        return None
     for x in fn.nodes():
-        if "callee" in x and x["callee"]["name"] in ("destroy", "destroy_n") and "std" in x["callee"]["qname"]:
-            if slot_index(kids(x)[0], "temporary") is not None:
-                destroyed = (x, None)
-        if x["k"] in ("ForStmt", "WhileStmt"):
-            init, cond, inc, body = match.loop_parts(x)
-            for y in ir.walk(body):
-                isd = (("callee" in y and y["callee"]["name"].startswith("~")) or y["k"] == "CXXPseudoDestructorExpr") and kids(y)
-                if isd:
-                    tgt = kids(y)[0] if y["k"] != "CXXPseudoDestructorExpr" else kids(y)[0]
-                    if slot_index(tgt, "temporary") is not None:
-                        b = match.binop(cond, ("<", "!="))
-                        var = [z["did"] for z in ir.walk(init) if z["k"] == "VarDecl" and kids(z) and const_int(kids(z)[0]) == 0]
-                        if b and var and ref_of(b[1]) == var[0]:
-                            destroyed = (x, b[2])
-    T = (fn.rtargs or fn.targs)
-    trivially = False
-    if destroyed is None:
+        if x["k"] == "LambdaExpr" and any(c.get("id") == R.sd for c in x.get("captures", [])):
+            lf = tu.by_did.get(x.get("fn"))
+            if lf is None:
+                out.append((x, "a lambda captures the sorting data and its body is not available"))
+            elif mentions(lf) is not None:
+                out.append((x, "a lambda that captures the sorting data accesses sd->%s" % mentions(lf)["member"]))
+        if "callee" in x and x["k"] != "CXXOperatorCallExpr":
+            args = kids(x)
+            if any(a is not None and ref_of(R.L.resolve(a)) == R.sd for a in args):
+                cal = tu.by_did.get(x["callee"].get("did"))
+                if cal is None or cal.body is None:
+                    out.append((x, "%s() receives the sorting data and its body is not available" % x["callee"]["name"]))
+                elif mentions(cal) is not None:
+                    out.append((x, "%s() receives the sorting data and accesses sd->%s" % (x["callee"]["name"], mentions(cal)["member"])))
+        if x["k"] == "MemberExpr" and R.sd_field(x) in fields:
+            par = fn.parent(x)
+            while par is not None and par["k"] in ("ImplicitCastExpr", "CXXStaticCastExpr", "CStyleCastExpr", "CXXFunctionalCastExpr", "CXXConstCastExpr"):
+                par = fn.parent(par)
+            ip = match.index_parts(par) if par is not None else None
+            if not (ip and contains(ip[0], x)):
+                out.append((x, "sd->%s is used as a whole (not through a subscript)" % x["member"]))
+    return out
+
+
+def unknown_buffer_use(fn, R, life):
+    """a use of the raw buffer pointer (sd->temporary[...] or a local that holds a pointer into the buffer) whose effect on the
+    elements is not known: an argument of a call that is not listed in BYVALUE_CALLS, a store into an object other than the
+    slot, a pointer variable that is modified -> (node, text) or None"""
+    L = R.L
+    alias = set()
+    for d, v in L.decl.items():
+        if kids(v) and kids(v)[0] is not None and is_ptr_ty(v.get("ty")):
+            a = life.value(kids(v)[0])
+            if a is not None and life.BUF <= a <= life.BUF + 4:
+                if not L.frozen(d):
+                    return v, "the pointer variable %s into the raw buffer is modified" % v.get("name")
+                alias.add(d)
+    for x in fn.nodes():
+        if x["k"] == "DeclRefExpr":
+            if x["ref"]["id"] not in alias:
+                continue
+        elif x["k"] in ("ArraySubscriptExpr", "CXXOperatorCallExpr", "CXXMemberCallExpr"):
+            sl = R.slot(x)
+            if not sl or sl[0] != "temporary":
+                continue
+        else:
+            continue
+        n, par = x, fn.parent(x)
+        while par is not None:
+            k = par["k"]
+            ip = match.index_parts(par)
+            if (ip and strip_casts(ip[0]) is strip_casts(n) and is_ptr_ty(strip_casts(n).get("ty"))) or match.deref_of(par) is not None:
+                break                    # an element of the buffer: its life ends only through the destructor operations
+            if k in ("BinaryOperator", "UnaryOperator", "ConditionalOperator") and par.get("op") not in ASSIGN_OPS and not is_ptr_ty(par.get("ty")):
+                break                    # a difference / comparison of pointers
+            if k == "VarDecl":
+                if par.get("did") not in alias and is_ptr_ty(par.get("ty")) or is_ref_ty(par.get("ty")):
+                    return par, "the buffer pointer is stored in %s" % par.get("name")
+                break
+            b = match.binop(par, ASSIGN_OPS) if k in ("BinaryOperator", "CompoundAssignOperator", "CXXOperatorCallExpr") else None
+            if b:
+                if contains(b[2], x):
+                    sl = R.slot(b[1])
+                    if not (sl and sl[0] == "temporary"):
+                        return par, "the buffer pointer is stored in %s" % dtable.describe(b[1])[:60]
+                break
+            if "callee" in par or k in ("CallExpr", "CXXConstructExpr", "CXXTemporaryObjectExpr", "LambdaExpr", "ReturnStmt", "CXXNewExpr", "CXXDeleteExpr"):
+                if k == "CXXNewExpr" and par.get("placement") and strip_casts(kids(par)[0]) is strip_casts(n):
+                    break                # constructs an element in place
+                if k in ("LambdaExpr", "ReturnStmt", "CXXNewExpr", "CXXDeleteExpr") or "callee" not in par:
+                    return par, "the buffer pointer is used in a %s" % k
+                if is_dtor_op(par) or Locals.harmless_call(par):
+                    break
+                if k in ("CXXConstructExpr", "CXXTemporaryObjectExpr") and (par["callee"].get("qname") or "").startswith("std::pair"):
+                    break
+                return par, "%s() receives the buffer pointer" % par["callee"]["name"]
+            if k in ("CompoundStmt", "IfStmt", "ForStmt", "WhileStmt", "DoStmt", "DeclStmt", "SwitchStmt"):
+                break
+            n, par = par, fn.parent(par)
+    return None
+
+
+def check_temp_destroy(ck, tu, fn, tag, R, life):
+    g = life.g
+    news, dels, constructs = life.news, life.dels, life.constructs
+    ck.require(len(news) == 1 and len(dels) == 1 and len(constructs) >= 1, "%s: raw buffer life cycle not recognised" % fn.loc)
+    for x in fn.nodes():
+        w = match.unop(x, ("++", "--")) or (match.binop(x, ASSIGN_OPS) if x["k"] in ("BinaryOperator", "CompoundAssignOperator", "CXXOperatorCallExpr") else None)
+        if w and any(R.sd_field(y) in ("starts", "source") for y in ir.walk(w[1]) if y["k"] == "MemberExpr"):
+            raise und(fn, x, "the worker modifies sd->starts / sd->source: chunk length not evaluated")
+    units, allunits = [], []
+    for d in life.dtor_ops + constructs:
+        u = life.unit_of(d)
+        if u is None:
+            raise und(fn, d, "construction / destruction outside the statements of the function body")
+        if d in life.dtor_ops and not any(u is v for v in units):
+            units.append(u)
+        if not any(u is v for v in allunits):
+            allunits.append(u)
+    allunits = [u for u in kids(fn.body) if any(u is v for v in allunits)]
+    # destructor calls in lambdas of the worker are not followed
+    for x in fn.nodes():
+        if x["k"] == "LambdaExpr":
+            lf = tu.by_did.get(x.get("fn"))
+            if lf is None or any(is_dtor_op(y) or ("callee" in y and y["callee"]["name"] in ("operator delete",)) for y in lf.nodes()):
+                raise und(fn, x, "a lambda of the worker destroys / releases objects: not followed")
+    bad = None
+    for length in range(4):
+        ev, vals = life.run(length, allunits, [] if any(contains(u, dels[0]) for u in allunits) else [dels[0]])
+        cons = [e for e in ev if e[0] == "construct"]
+        if any(e[1] is None or e[2] is None or e[2] < 0 for e in cons):
+            raise und(fn, constructs[0], "target / number of the elements constructed into the raw buffer not evaluated")
+        built = sorted(a for e in cons for a in range(e[1], e[1] + e[2]))
+        if any(not (life.BUF <= a < life.BUF + 64) for a in built):
+            raise und(fn, constructs[0], "elements are constructed outside the buffer obtained from operator new")
+        count = len(built)
+        frees = [e for e in ev if e[0] == "free"]
+        if len(frees) != 1 or frees[0][1] != life.BUF:
+            raise und(fn, dels[0], "released buffer is not the buffer obtained from operator new")
+        hits = [e[1] for e in ev if e[0] == "dtor"]
+        if None in hits:
+            raise und(fn, [e[2] for e in ev if e[0] == "dtor" and e[1] is None][0], "object of an explicit destructor call not understood")
+        order = [e[0] for e in ev if e[0] in ("dtor", "free")]
+        if "free" in order and "dtor" in order[order.index("free"):]:
+            raise und(fn, dels[0], "destructor calls after operator delete in the same statement")
+        if sorted(hits) != built and bad is None:
+            bad = (count, [a - life.BUF for a in built], sorted(h - life.BUF for h in hits))
+    free_nodes = [dels[0]] + life.dtor_ops
+    if not life.dtor_ops:
+        # absence in a closed world: every use of the buffer in the worker was evaluated above or is listed in BYVALUE_CALLS;
+        # the sorting data is not handed to code that touches sd->temporary
+        foreign = foreign_field_uses(tu, R, ("temporary",))
+        if foreign:
+            raise und(fn, foreign[0][0], foreign[0][1] + ": destruction of the temporaries not decided")
+        unk = unknown_buffer_use(fn, R, life)
+        if unk:
+            raise und(fn, unk[0], unk[1] + ": destruction of the temporaries not decided")
         ck.violation("TEMP-DESTROY", fn.qname, tag, "elements are copy-constructed into a raw buffer (uninitialized_copy) but the buffer is released with operator delete "
                      "without destroying them: every temporary copy leaks its resources", fn.nloc(dels[0]))
-        return
-    x, bound = destroyed
-    # bound must be the number of constructed elements: length_local
-    okb = True
-    if bound is not None:
-        ln = [y for y in ir.walk(src_e) if y["k"] == "DeclRefExpr" and y["ref"]["kind"] == "local"]
-        okb = bool(ln) and ref_of(bound) == ln[-1]["ref"]["id"]
-    pd, px = g.pos(dels[0]), g.pos_deep(x)
-    if not okb:
-        ck.violation("TEMP-DESTROY", fn.qname, tag + ":count", "the number of destroyed temporaries differs from the number constructed", fn.nloc(x))
-    elif not (px and pd and g.dominates(px, pd)):
-        ck.violation("TEMP-DESTROY", fn.qname, tag + ":path", "the temporaries are not destroyed on every path to operator delete", fn.nloc(dels[0]))
-    else:
-        ck.ok("TEMP-DESTROY", tag, "every element constructed into temporary[iam] is destroyed before operator delete")
-    return dels[0], x
+        return free_nodes
+    if bad:
+        ck.violation("TEMP-DESTROY", fn.qname, tag + ":count", "the number of destroyed temporaries differs from the number constructed: %d elements %s are constructed, "
+                     "the elements %s are destroyed" % bad, fn.nloc(life.dtor_ops[0]))
+        return free_nodes
+    pc, pd = g.pos(constructs[0]), g.pos(dels[0])
+    if pc is None or pd is None:
+        raise und(fn, dels[0], "construction / release not found in the control-flow graph")
+    for u in units:
+        pu = entry_pos(fn, g, u)
+        if pu is None:
+            raise und(fn, u, "entry of the destroying statement not found in the control-flow graph")
+        if contains(u, dels[0]):
+            continue                      # evaluated as a whole above
+        path = find_path(g, pc, pd, [pu])
+        if path is not None:
+            ck.violation("TEMP-DESTROY", fn.qname, tag + ":path", "the temporaries are not destroyed on every path to operator delete (blocks %s)" % path, fn.nloc(dels[0]))
+            return free_nodes
+    ck.ok("TEMP-DESTROY", tag, "every element constructed into temporary[iam] is destroyed before operator delete")
+    return free_nodes
 
 
-def check_barriers(ck, fn, tag, free_nodes):
-    g = cfgm.CFG(fn)
-    waits = [x for x in fn.nodes() if "callee" in x and x["callee"]["name"] in ("wait", "wait_yield") and x.get("member_call") and ir.ref_name(kids(x)[0]) == "barrier"]
-    ck.require(len(waits) >= 3, "%s: barrier waits not found" % fn.loc)
-    # ---- BARRIER-BALANCE: no wait under a thread-dependent condition
-    bad = False
-    for w in waits:
-        par = fn.parent(w)
-        while par is not None:
-            if par["k"] in ("IfStmt", "ForStmt", "WhileStmt"):
-                c = kids(par)[0] if par["k"] != "ForStmt" else kids(par)[1]
-                names = set(ir.ref_name(y) for y in ir.walk(c) if y["k"] == "DeclRefExpr") if c is not None else set()
-                if "iam" in names or par["k"] != "IfStmt":
-                    ck.violation("BARRIER-BALANCE", fn.qname, "%s:%s" % (tag, fn.nloc(w)), "barrier.wait() depends on %s: threads cross a different number of barriers (deadlock)"
-                                 % ("the thread index" if "iam" in names else "a loop"), fn.nloc(w))
-                    bad = True
-            par = fn.parent(par)
+# ------------------------------------------------------------------------------------------------ barriers
+def barrier_waits(fn, R):
+    """the barrier crossings of the worker; every other use of the barrier object is not understood"""
+    waits, recv = [], set()
+    for x in fn.nodes():
+        if "callee" in x and x.get("member_call") and "ThreadBarrier" in (x["callee"].get("record") or x["callee"].get("qname") or ""):
+            if x["callee"]["name"] not in ("wait", "wait_yield"):
+                raise und(fn, x, "barrier operation %s() not understood" % x["callee"]["name"])
+            if ref_of(R.L.resolve(kids(x)[0])) != R.barrier:
+                raise und(fn, x, "wait on a barrier that is not the worker's barrier parameter")
+            waits.append(x)
+            recv |= {y["id"] for y in ir.walk(kids(x)[0])}
+    aliases = {d for d, v in R.L.decl.items() if R.L.frozen(d) and ref_of(R.L.resolve(kids(v)[0])) == R.barrier}
+    for x in fn.nodes():
+        if x["k"] == "DeclRefExpr" and (x["ref"]["id"] == R.barrier or x["ref"]["id"] in aliases) and x["id"] not in recv:
+            par = fn.parent(x)
+            if par is not None and par["k"] == "VarDecl" and par.get("did") in aliases:
+                continue
+            raise und(fn, x, "the barrier is used in an operation that is not understood")
+        if x["k"] == "LambdaExpr" and any(c.get("id") == R.barrier or c.get("id") in aliases for c in x.get("captures", [])):
+            raise und(fn, x, "a lambda captures the barrier")
+    return waits
+
+
+def check_barrier_balance(ck, fn, tag, R, waits):
+    """BARRIER-BALANCE: all threads cross the same number of barriers.  The number of waits is computed over the statement
+    tree; a choice on a thread-independent condition may change it (all threads choose alike), the two sides of a
+    thread-dependent condition must cross equally many, a loop around a wait needs a thread-independent trip count"""
+    dep = Dep(R)
+    wait_ids = {w["id"] for w in waits}
+    bad = []
+
+    def expr_waits(e):
+        n = 0
+        for y in ir.walk(e):
+            if y["id"] in wait_ids:
+                n += 1
+                p, c = fn.parent(y), y
+                while p is not None and p is not e and c is not e:
+                    if p["k"] == "ConditionalOperator" and c is not kids(p)[0]:
+                        raise und(fn, y, "barrier wait inside a conditional expression")
+                    if p["k"] == "BinaryOperator" and p.get("op") in ("&&", "||") and c is kids(p)[1]:
+                        raise und(fn, y, "barrier wait inside a short-circuit expression")
+                    c, p = p, fn.parent(p)
+        return n
+
+    def seq(parts):
+        total, forms = 0, []
+        for p in parts:
+            if isinstance(p, int):
+                total += p
+            elif p[0] == "seq":
+                total += p[1]
+                forms += list(p[2])
+            else:
+                forms.append(p)
+        return total if not forms else ("seq", total, tuple(forms))
+
+    def show(f):
+        if isinstance(f, int):
+            return str(f)
+        if f[0] == "seq":
+            return " + ".join(([str(f[1])] if f[1] else []) + [show(x) for x in f[2]])
+        if f[0] == "if":
+            return "(line %s ? %s : %s)" % (f[1], show(f[3]), show(f[4]))
+        if f[0] == "switch":
+            return "(switch at line %s: up to %s)" % (f[1], f[3])
+        return "loop at line %s of %s" % (f[1], show(f[3]))
+
+    def has_wait(s):
+        return s is not None and any(y["id"] in wait_ids for y in ir.walk(s))
+
+    def wform(s):
+        if s is None:
+            return 0
+        k = s["k"]
+        if not has_wait(s):
+            return 0
+        if k in ("CompoundStmt", "AttributedStmt"):
+            return seq([wform(c) for c in kids(s)])
+        if k == "IfStmt":
+            ch = kids(s) + [None, None]
+            pre = expr_waits(ch[0]) + (expr_waits(s["init"]) if isinstance(s.get("init"), dict) else 0)
+            ft, fe = wform(ch[1]), wform(ch[2])
+            if ft == fe:
+                return seq([pre, ft])
+            c = dep.cls(ch[0])
+            c = max(c, INDEP)
+            if c == INDEP:
+                return seq([pre, ("if", s.get("l"), s["id"], ft, fe)])
+            if c == DEP and isinstance(ft, int) and isinstance(fe, int):
+                bad.append((s, "the thread index", "the branches of the condition at line %s cross %s and %s barriers" % (s.get("l"), show(ft), show(fe))))
+                return seq([pre, ft])
+            if c == DEP:
+                raise und(fn, s, "the branches of a thread-dependent condition cross %s and %s barriers: equality not decided" % (show(ft), show(fe)))
+            raise und(fn, s, "barrier wait under a condition whose dependence on the thread is not known: %s" % dtable.describe(ch[0])[:80])
+        if k in LOOPS:
+            init, cond, inc, body = match.loop_parts(s)
+            pre = wform(init) if init is not None and init["k"] in ("DeclStmt", "CompoundStmt") else (expr_waits(init) if init is not None else 0)
+            fb = seq([wform(body), expr_waits(cond) if cond is not None else 0, expr_waits(inc) if inc is not None else 0])
+            if fb == 0:
+                return pre
+            if cond is None:
+                raise und(fn, s, "barrier wait in an endless loop")
+            c = dep.cls(cond)
+            if c == INDEP:
+                return seq([pre, ("loop", s.get("l"), s["id"], fb)])
+            if c == DEP:
+                bad.append((s, "a loop", "the trip count of the loop at line %s depends on the thread index" % s.get("l")))
+                return pre
+            raise und(fn, s, "barrier wait in a loop whose trip count is not known to be the same for all threads: %s" % dtable.describe(cond)[:80])
+        if k in ("SwitchStmt", "CXXForRangeStmt", "CXXTryStmt", "LabelStmt", "CaseStmt", "DefaultStmt"):
+            # no count over this statement kind; but if every wait and every jump in it is controlled by thread-independent
+            # conditions only, all threads walk the same way through it
+            inner = [w for w in waits if contains(s, w)] + [y for y in ir.walk(s) if y["k"] in ("ReturnStmt", "BreakStmt", "ContinueStmt", "GotoStmt")]
+            if k == "SwitchStmt" and all(y["k"] != "GotoStmt" and dep.ctrl(y) == INDEP for y in inner):
+                return ("switch", s.get("l"), s["id"], len([w for w in waits if contains(s, w)]))
+            raise und(fn, s, "barrier wait inside %s" % k)
+        return expr_waits(s)
+
+    def early_return_evidence(y):
+        """`if (<thread-dependent>) return;` directly under thread-independent control, with a barrier on every path that
+        the other threads take from there to the end of the function -> text, else None"""
+        P, n = fn.parent(y), y
+        while P is not None and P["k"] == "CompoundStmt" and kids(P) and kids(P)[-1] is n and P is not fn.body:
+            n, P = P, fn.parent(P)
+        if P is None or P["k"] != "IfStmt" or n is kids(P)[0] or has_wait(n) or dep.cls(kids(P)[0]) != DEP or dep.ctrl(P) != INDEP:
+            return None
+        if any(z["k"] in ("ReturnStmt", "BreakStmt", "ContinueStmt", "GotoStmt") and z is not y for z in ir.walk(n)):
+            return None
+        g = cfgm.CFG(fn)
+        blocks = [b for b in g.blocks.values() if b.get("term") == P["id"] and len(b.get("succ", [])) == 2 and None not in b["succ"]]
+        if len(blocks) != 1:
+            return None
+        other = blocks[0]["succ"][1] if n is kids(P)[1] else blocks[0]["succ"][0]
+        wp = [g.pos(w) for w in waits]
+        if None in wp or g.path_avoiding((other, -1), wp) is not None:
+            return None
+        return "the thread that returns at line %s crosses no further barrier, every other thread crosses at least one more" % y.get("l")
+
+    # jumps: a return (or a break / continue of a loop that holds a wait) must not depend on the thread
+    body_stmts = kids(fn.body)
+    for y in fn.nodes():
+        if y["k"] in ("ReturnStmt", "BreakStmt", "ContinueStmt", "GotoStmt"):
+            if y["k"] == "ReturnStmt" and body_stmts and y is body_stmts[-1]:
+                continue
+            if y["k"] in ("BreakStmt", "ContinueStmt"):
+                lp = fn.parent(y)
+                while lp is not None and lp["k"] not in LOOPS + ("SwitchStmt",):
+                    lp = fn.parent(lp)
+                if lp is None or not has_wait(lp):
+                    continue
+            if y["k"] == "GotoStmt" or dep.ctrl(y) != INDEP:
+                ev = early_return_evidence(y) if y["k"] == "ReturnStmt" else None
+                if ev is not None:
+                    ck.violation("BARRIER-BALANCE", fn.qname, "%s:%s" % (tag, fn.nloc(y)), "barrier.wait() depends on the thread index: threads cross a different number of "
+                                 "barriers (deadlock); %s" % ev, fn.nloc(y))
+                    return
+                raise und(fn, y, "%s under a condition that is not known to be the same for all threads: barrier crossings not counted" % y["k"])
+    total = wform(fn.body)
+    for s, why, detail in bad:
+        ws = [w for w in waits if contains(s, w)]
+        w = ws[0] if ws else s
+        ck.violation("BARRIER-BALANCE", fn.qname, "%s:%s" % (tag, fn.nloc(w)), "barrier.wait() depends on %s: threads cross a different number of barriers (deadlock); %s"
+                     % (why, detail), fn.nloc(w))
     if not bad:
-        ck.ok("BARRIER-BALANCE", tag, "%d barrier waits, none under a thread-dependent condition or in a loop" % len(waits))
-    # ---- BARRIER-PHASES: own-slot write -> barrier -> cross-slot read ; cross reads -> barrier -> release
-    def accesses(field):
-        out = []
-        for x in fn.nodes():
-            if x["k"] not in ("ArraySubscriptExpr", "CXXOperatorCallExpr"):
+        ck.ok("BARRIER-BALANCE", tag, "%d barrier waits, every thread crosses %s" % (len(waits), show(total)))
+
+
+class Access:
+    def __init__(self, node, field, idx, own, kind, member):
+        self.node, self.field, self.idx, self.own, self.kind, self.member = node, field, idx, own, kind, member
+
+
+def slot_accesses(fn, R, dep, field):
+    """the accesses to sd->field[idx] in the worker; own: 'own' (idx is the thread index) / 'cross' (provably another or
+    every thread's slot) / 'maybe'; kind: 'r' / 'w' / 'rw' / '?' (address taken, bound to a reference, unknown call)"""
+    out = []
+    CASTS = ("ImplicitCastExpr", "CXXStaticCastExpr", "CStyleCastExpr", "CXXFunctionalCastExpr", "CXXConstCastExpr", "CXXReinterpretCastExpr", "ParenExpr")
+    alias_inits = set()
+    for d, v in R.L.decl.items():
+        if is_ref_ty(v.get("ty")) and kids(v) and kids(v)[0] is not None:
+            alias_inits |= {y["id"] for y in ir.walk(kids(v)[0])}
+    for x in fn.nodes():
+        if x["id"] in alias_inits:
+            continue                     # binding a reference is not an access; the uses of the reference are
+        if x["k"] == "DeclRefExpr":
+            d = x["ref"]["id"]
+            v = R.L.decl.get(d)
+            if v is None or not is_ref_ty(v.get("ty")) or not kids(v):
                 continue
-            p = match.index_parts(x)
-            if not p:
+            chain = strip_casts(kids(v)[0])
+        elif x["k"] in ("ArraySubscriptExpr", "CXXOperatorCallExpr", "CXXMemberCallExpr"):
+            chain = x
+        else:
+            continue
+        # innermost slot of the field on the lvalue chain
+        s, e, member = None, chain, None
+        for _ in range(8):
+            if e is None:
+                break
+            if e is not x and e is not chain and x["k"] != "DeclRefExpr":
+                break
+            sl = R.slot(e)
+            if sl and sl[0] == field:
+                s = sl
+                break
+            if x["k"] != "DeclRefExpr":
+                break
+            f = match.field_of(e)
+            ip = match.index_parts(e)
+            if f:
+                member = member or f[1]
+                e = strip_casts(f[0])
+                chain = e
+            elif ip:
+                e = strip_casts(ip[0])
+                chain = e
+            else:
+                break
+        if not s:
+            continue
+        idx = s[1]
+        lin = R.lin_iam(idx)
+        if lin == (1, 0):
+            own = "own"
+        elif lin is not None and lin[0] == 1 and lin[1] != 0:
+            own = "cross"
+        elif dep.cls(idx) == INDEP:
+            own = "cross"
+        else:
+            own = "maybe"
+        # climb the lvalue chain: member selection, further subscripts, casts
+        top, par = x, fn.parent(x)
+        while par is not None:
+            if par["k"] in CASTS:
+                par = fn.parent(par)
                 continue
-            f = match.field_of(p[0])
-            if f and f[1] == field and ir.ref_name(f[0]) == "sd":
-                idx = strip_casts(p[1])
-                names = set(ir.ref_name(y) for y in ir.walk(idx) if y["k"] == "DeclRefExpr")
-                own = names == {"iam"} and not match.binop(idx, ("-", "+"))
-                if field == "samples":
-                    own = "iam" in names and not any(n in names for n in ("s", "seq"))
-                # written?
-                node, par = x, fn.parent(x)
-                written = False
-                while par is not None and par["k"] in ("MemberExpr", "ArraySubscriptExpr", "CXXOperatorCallExpr", "ImplicitCastExpr") and par.get("op") != "=":
-                    node, par = par, fn.parent(par)
-                if par is not None:
-                    b = match.binop(par, ("=",))
-                    if b and (strip_casts(b[1]) is node or any(y is x for y in ir.walk(b[1]))):
-                        written = True
-                member = node.get("member") if node.get("k") == "MemberExpr" else None
-                # node is the outermost lvalue; find the member directly selected on the slot element
-                mm = None
-                q = fn.parent(x)
-                while q is not None and q["k"] in ("ArraySubscriptExpr", "CXXOperatorCallExpr", "ImplicitCastExpr"):
-                    q = fn.parent(q)
-                if q is not None and q["k"] == "MemberExpr":
-                    mm = q.get("member")
-                out.append((x, own, written, dtable.describe(idx), mm))
-        return out
-    viol = False
+            if par["k"] == "MemberExpr" and kids(par) and strip_casts(kids(par)[0]) is top:
+                member = member or par.get("member")
+                top, par = par, fn.parent(par)
+                continue
+            ip = match.index_parts(par)
+            if ip and strip_casts(ip[0]) is top:
+                top, par = par, fn.parent(par)
+                continue
+            break
+        kind = "r"
+        if par is not None:
+            b = match.binop(par, ASSIGN_OPS) if par["k"] in ("BinaryOperator", "CompoundAssignOperator", "CXXOperatorCallExpr") else None
+            u = match.unop(par, ("++", "--"))
+            if b and strip_casts(b[1]) is top:
+                kind = "w" if b[0] == "=" else "rw"
+            elif u and strip_casts(u[1]) is top:
+                kind = "rw"
+            elif par["k"] == "UnaryOperator" and par.get("op") == "&":
+                kind = "?"
+            elif par["k"] == "VarDecl":
+                kind = "?" if is_ref_ty(par.get("ty")) and not is_const_ty(par.get("ty")) else "r"
+            elif par["k"] == "LambdaExpr":
+                kind = "?"
+            elif "callee" in par:
+                if par["k"] == "CXXOperatorCallExpr":
+                    kind = "r" if par.get("op") in READ_OPS else "?"
+                elif par.get("member_call") and kids(par) and strip_casts(kids(par)[0]) is top:
+                    kind = "r" if par["callee"].get("const") else "?"
+                elif par["k"] in ("CXXConstructExpr", "CXXTemporaryObjectExpr") or Locals.harmless_call(par):
+                    kind = "r"
+                else:
+                    kind = "?"
+        out.append(Access(x, field, idx, own, kind, member))
+    return out
+
+
+def check_barrier_phases(ck, tu, fn, tag, R, g, waits, free_nodes):
+    """BARRIER-PHASES: own-slot write -> barrier -> cross-slot read ; cross reads -> barrier -> release.  Every finding is a
+    path of the CFG that is feasible for one of the valid splitting algorithms and passes no barrier"""
+    dep = Dep(R)
+    wpos = [g.pos(w) for w in waits]
+    if any(p is None for p in wpos):
+        raise und(fn, waits[wpos.index(None)], "barrier wait not found in the control-flow graph")
+    blocked = {v: infeasible_edges(fn, g, R.L, {R.mwmsa: v}) for v in VALID_MWMSA}
+    # a path that leaves a loop holding a wait without entering it is not known to be feasible (the first test of the loop
+    # condition may always succeed): evidence must also avoid the heads of such loops
+    heads = []
+    for lp in fn.nodes():
+        if lp["k"] in ("ForStmt", "WhileStmt") and any(contains(lp, w) for w in waits):
+            cond = match.loop_parts(lp)[1]
+            pc = g.pos_deep(cond) if cond is not None else None
+            if pc is not None:
+                heads.append(pc)
+
+    def path(a, b):
+        """-> (value of mwmsa, blocks) of a feasible barrier-free path a -> b; raises Undecidable for a barrier-free path whose
+        feasibility is not known; None if every path passes a barrier"""
+        doubt = None
+        for v in VALID_MWMSA:
+            p = find_path(g, a, b, wpos, blocked[v][0])
+            if p is None:
+                continue
+            q = find_path(g, a, b, wpos + heads, blocked[v][0]) if heads else p
+            if q is not None and not (set(q) & blocked[v][1]):
+                return v, q
+            doubt = p
+        if doubt is not None:
+            raise dtable.Undecidable("%s: a barrier-free path (blocks %s) exists only through a loop that holds a barrier wait or through a test of the "
+                                     "splitting algorithm that is not evaluated: feasibility not known" % (fn.loc, doubt))
+        return None
+    foreign = foreign_field_uses(tu, R, ("temporary", "pieces"))
+    viol, undecided = False, []
+    if foreign:
+        undecided.append(und(fn, foreign[0][0], foreign[0][1] + ": accesses to the shared slots not classified"))
+    merges = [x for x in fn.nodes() if "callee" in x and x["k"] == "CallExpr" and "multiway_merge" in x["callee"]["name"] and
+              (x["callee"].get("qname") or "").startswith("tlx::")]
+    frees = [f for f in free_nodes if f is not None]
+    fpos = {}
+    for f in frees:
+        fpos[f["id"]] = g.pos_deep(f)
+        if fpos[f["id"]] is None:
+            raise und(fn, f, "release of the temporaries not found in the control-flow graph")
     for field in ("temporary", "pieces"):
-        acc = accesses(field)
-        writes_own = [a for a in acc if a[1] and a[2]]
-        cross = [a for a in acc if not a[1]]
-        blocked = []
-        for top in kids(fn.body):
-            if top["k"] == "IfStmt":
-                vals, node, lastif = set(), top, None
-                while node is not None and node["k"] == "IfStmt":
-                    b = match.binop(kids(node)[0], ("==",))
-                    if b and ir.ref_name(b[1]) == "mwmsa" and const_int(b[2]) is not None:
-                        vals.add(const_int(b[2]))
-                    lastif = node
-                    node = kids(node)[2]
-                if node is None and vals >= {0, 1} and lastif is not None:
-                    e = g.false_edge_of(lastif["id"])
-                    if e:
-                        blocked.append(e)          # no valid splitting algorithm takes this edge
-        # in the sampling branch pieces[iam][s] is only ever own; cross = index not exactly iam
-        for (x, own, wr, idx, mem) in cross:
-            px = g.pos_deep(x)
-            ws = [w for w in waits if g.pos(w) and g.dominates(g.pos(w), px)]
-            if not ws:
-                ws = chain_waits(fn, g, waits, x)
-            if not ws:
-                ck.violation("BARRIER-PHASES", fn.qname, "%s:%s[%s]" % (tag, field, idx), "sd->%s[%s] (another thread's slot) is accessed without a preceding barrier" % (field, idx), fn.nloc(x))
-                viol = True
+        acc = slot_accesses(fn, R, dep, field)
+        for a in acc:
+            a.pos = g.pos_deep(a.node)
+            if a.pos is None:
+                raise und(fn, a.node, "access to sd->%s not found in the control-flow graph" % field)
+        writes_own = [a for a in acc if a.own != "cross" and a.kind != "r"]
+        cross = [a for a in acc if a.own != "own"]
+        for x in cross:
+            idx = dtable.describe(x.idx)
+            p = path(None, x.pos)
+            if p is not None:
+                if x.own == "cross":
+                    ck.violation("BARRIER-PHASES", fn.qname, "%s:%s[%s]" % (tag, field, idx), "sd->%s[%s] (another thread's slot) is accessed without a preceding barrier"
+                                 % (field, idx), fn.nloc(x.node))
+                    viol = True
+                else:
+                    undecided.append(und(fn, x.node, "sd->%s[%s]: not decided whether this is the thread's own slot, and no barrier precedes the access" % (field, idx)))
                 continue
             # every own write of this field that can reach x must be separated from it by a barrier
-            for (y, _, _, _, ymem) in writes_own:
-                if mem is not None and ymem is not None and mem != ymem:
+            for y in writes_own:
+                if x.member is not None and y.member is not None and x.member != y.member:
                     continue
-                py = g.pos_deep(y)
-                if py and g.path_between_avoiding(py, px, [g.pos(w) for w in waits if g.pos(w)], blocked) is not None:
-                    if True:
-                        ck.violation("BARRIER-PHASES", fn.qname, "%s:%s[%s]:write" % (tag, field, idx), "a thread's own write to sd->%s and another thread's read of that slot are not separated by a barrier" % field, fn.nloc(x))
-                        viol = True
+                p = path(y.pos, x.pos)
+                if p is None:
+                    continue
+                if x.own == "cross" and y.own == "own" and y.kind in ("w", "rw"):
+                    ck.violation("BARRIER-PHASES", fn.qname, "%s:%s[%s]:write" % (tag, field, idx), "a thread's own write to sd->%s and another thread's read of that slot "
+                                 "are not separated by a barrier" % field, fn.nloc(x.node))
+                    viol = True
+                else:
+                    undecided.append(und(fn, y.node, "sd->%s[%s] at line %s and sd->%s[%s] are not separated by a barrier: kind of access / owner of the slot not decided"
+                                         % (field, dtable.describe(y.idx), y.node.get("l"), field, idx)))
         if field == "temporary":
             # release after the last cross read: a barrier between
-            for fnode in free_nodes:
-                if fnode is None:
-                    continue
-                pf = g.pos_deep(fnode)
-                for (x, own, wr, idx, mem) in cross:
-                    px = g.pos_deep(x)
-                    if not any(g.pos(w) and g.dominates(px, g.pos(w)) is not None and g.dominates(g.pos(w), pf) and not g.dominates(g.pos(w), px) for w in waits):
-                        ck.violation("BARRIER-PHASES", fn.qname, "%s:release" % tag, "temporary[iam] is destroyed / released while other threads may still read it (no barrier after the merge)", fn.nloc(fnode))
-                        viol = True
+            for f in frees:
+                for x in cross:
+                    if path(x.pos, fpos[f["id"]]) is not None:
+                        if x.own == "cross":
+                            ck.violation("BARRIER-PHASES", fn.qname, "%s:release" % tag, "temporary[iam] is destroyed / released while other threads may still read it "
+                                         "(no barrier after the merge)", fn.nloc(f))
+                            viol = True
+                        else:
+                            undecided.append(und(fn, x.node, "sd->temporary[%s] is followed by the release without a barrier: owner of the slot not decided" % dtable.describe(x.idx)))
                         break
     # the merge itself reads all temporaries: the final barrier must lie between the merge call and the release
-    merges = [x for x in fn.nodes() if "callee" in x and x["callee"]["name"] in ("multiway_merge_base", "multiway_merge", "stable_multiway_merge")]
-    for fnode in free_nodes:
-        if fnode is None or not merges:
-            continue
-        pm, pf = g.pos(merges[0]), g.pos_deep(fnode)
-        if not any(g.pos(w) and g.dominates(pm, g.pos(w)) and g.dominates(g.pos(w), pf) for w in waits):
-            ck.violation("BARRIER-PHASES", fn.qname, "%s:release-after-merge" % tag, "a thread destroys / frees its temporary buffer without waiting for the other threads' merges to finish", fn.nloc(fnode))
-            viol = True
-    if not viol:
-        ck.ok("BARRIER-PHASES", tag, "own-slot writes -> barrier -> cross-slot reads -> barrier -> release, for temporary[] and pieces[][]")
-
-
-def chain_waits(fn, g, waits, x):
-    """x is preceded by an if / else-if chain over the splitting algorithm whose every branch waits unconditionally and which
-    covers all valid enumerators (MWMSA_SAMPLING, MWMSA_EXACT): the waits of the branches act as one barrier before x"""
-    px = g.pos_deep(x)
-    for top in kids(fn.body):
-        if top["k"] != "IfStmt":
-            continue
-        pt = g.pos_deep(kids(top)[0])
-        if not (pt and g.dominates(pt, px)) or any(y is x for y in ir.walk(top)):
-            continue
-        vals, branch_waits, node = set(), [], top
-        okc = True
-        while node is not None and node["k"] == "IfStmt":
-            b = match.binop(kids(node)[0], ("==",))
-            if not (b and ir.ref_name(b[1]) == "mwmsa" and const_int(b[2]) is not None):
-                okc = False
-                break
-            vals.add(const_int(b[2]))
-            direct = [w for w in waits if any(c is w or (c["k"] not in ("IfStmt", "ForStmt", "WhileStmt") and any(y is w for y in ir.walk(c))) for c in kids(kids(node)[1]) if c)]
-            if not direct:
-                okc = False
-                break
-            branch_waits += direct
-            node = kids(node)[2]
-        if okc and node is None and vals >= {0, 1}:
-            return branch_waits
-    return []
-
-
-def check_stable(ck, tu, fn, tag):
-    st = fn.targs[0]
-    sorts = [x for x in fn.nodes() if "callee" in x and x["callee"]["name"] in ("sort", "stable_sort") and "std" in x["callee"]["qname"] and
-             any(slot_index(a, "temporary") is not None for a in kids(x)[:1])]
-    live = []
-    for x in sorts:
-        par = fn.parent(x)
-        n = x
-        dead = False
-        while par is not None:
-            if par["k"] == "IfStmt" and const_int(kids(par)[0]) is not None:
-                in_then = kids(par)[1] is not None and any(y is n for y in ir.walk(kids(par)[1]))
-                if in_then != bool(const_int(kids(par)[0])):
-                    dead = True
-            n, par = par, fn.parent(par)
-        if not dead:
-            live.append(x["callee"]["name"])
-    merges = [x for x in fn.nodes() if "callee" in x and x["k"] == "CallExpr" and x["callee"]["name"] in ("multiway_merge_base", "multiway_merge", "stable_multiway_merge",
-                                                                                                 "multiway_merge_sentinels", "stable_multiway_merge_sentinels")]
-    bad = False
-    if st == "true":
-        if live != ["stable_sort"]:
-            ck.violation("STABLE-PROPAGATE", fn.qname, tag + ":local-sort", "the stable variant sorts its chunk with %s" % live, fn.loc)
-            bad = True
-        for m in merges:
-            nm = m["callee"]["name"]
-            stable_merge = (nm == "multiway_merge_base" and m["callee"]["targs"][0] == "true") or nm.startswith("stable_")
-            if not stable_merge:
-                ck.violation("STABLE-PROPAGATE", fn.qname, tag + ":merge", "the stable variant merges the sorted chunks with the unstable %s" %
-                             (nm + ("<%s>" % m["callee"]["targs"][0] if nm == "multiway_merge_base" else "")), fn.nloc(m))
-                bad = True
     if not merges:
+        undecided.append(und(fn, None, "merge step not found: release of the temporaries after the merge not decided"))
+    for f in frees:
+        for m in merges:
+            pm = g.pos_deep(m)
+            if pm is None:
+                raise und(fn, m, "merge call not found in the control-flow graph")
+            if path(pm, fpos[f["id"]]) is not None:
+                ck.violation("BARRIER-PHASES", fn.qname, "%s:release-after-merge" % tag, "a thread destroys / frees its temporary buffer without waiting for the other threads' "
+                             "merges to finish", fn.nloc(f))
+                viol = True
+                break
+    if viol:
+        return
+    if undecided:
+        raise undecided[0]
+    ck.ok("BARRIER-PHASES", tag, "own-slot writes -> barrier -> cross-slot reads -> barrier -> release, for temporary[] and pieces[][]")
+
+
+# ------------------------------------------------------------------------------------------------ stability
+def liveness(fn, L, node):
+    """'live' / 'dead' / 'cond': whether the node sits in a branch selected by compile-time constants"""
+    res = "live"
+    n, par = node, fn.parent(node)
+    while par is not None:
+        c = None
+        if par["k"] in ("IfStmt", "ConditionalOperator") and n is not kids(par)[0]:
+            c = kids(par)[0]
+            in_then = n is kids(par)[1]
+        elif par["k"] in LOOPS:
+            init, cond, inc, body = match.loop_parts(par)
+            if n is body or n is inc:
+                res = "cond" if res == "live" else res
+        elif par["k"] in ("SwitchStmt", "CXXForRangeStmt", "CXXTryStmt", "CaseStmt", "DefaultStmt") and n is not kids(par)[0]:
+            res = "cond" if res == "live" else res
+        elif par["k"] == "BinaryOperator" and par.get("op") in ("&&", "||") and n is kids(par)[1]:
+            res = "cond" if res == "live" else res
+        if c is not None:
+            v = const_int(c)
+            if v is None:
+                try:
+                    v = skel.Skel(fn, {}, lazy_locals(L), None).ev(c)
+                except dtable.Undecidable:
+                    v = None
+            if isinstance(v, (bool, int)):
+                if bool(v) != in_then:
+                    return "dead"
+            elif res == "live":
+                res = "cond"
+        n, par = par, fn.parent(par)
+    return res
+
+
+def merge_stability(m):
+    """True / False / None (not known) for a call of one of the multiway merge entry points"""
+    nm = m["callee"]["name"]
+    targs = m["callee"].get("targs") or []
+    if nm.endswith("multiway_merge_base") and targs and targs[0] in ("true", "false"):
+        return targs[0] == "true"
+    if nm.startswith("stable_") and nm.endswith(("multiway_merge", "multiway_merge_sentinels")):
+        return True
+    if nm in ("multiway_merge", "multiway_merge_sentinels", "parallel_multiway_merge"):
+        return False
+    return None
+
+
+def check_stable(ck, tu, fn, tag, R, life):
+    st = fn.targs[0]
+    L = R.L
+    sorts = []
+    for x in fn.nodes():
+        if not std_call(x, UNSTABLE_SORTS + STABLE_SORTS) or not kids(x):
+            continue
+        a = life.value(kids(x)[0])
+        if a is not None and a != life.BUF:
+            continue                      # sorts something else (an address outside this thread's buffer)
+        if a is None:
+            # not the chunk if the range is rooted in another field of the sorting data or in a local container
+            roots = [R.sd_field(y) for y in ir.walk(kids(x)[0]) if y["k"] == "MemberExpr"]
+            if any(r is not None and r != "temporary" for r in roots) and "temporary" not in roots:
+                continue
+        sorts.append((x, a == life.BUF, liveness(fn, L, x)))
+    merges = [x for x in fn.nodes() if "callee" in x and x["k"] == "CallExpr" and "multiway_merge" in x["callee"]["name"] and
+              (x["callee"].get("qname") or "").startswith("tlx::")]
+    merges = [(m, liveness(fn, L, m)) for m in merges]
+    if not [m for m in merges if m[1] != "dead"]:
         raise dtable.Undecidable("%s: merge step not found" % fn.loc)
-    if not bad:
-        ck.ok("STABLE-PROPAGATE", tag, "local sort %s, merge %s" % (live, [m["callee"]["name"] + "<" + ",".join(m["callee"].get("targs", [])[:2]) + ">" for m in merges]))
+    livesorts = [s for s in sorts if s[2] != "dead"]
+    if not livesorts and st == "true":
+        raise dtable.Undecidable("%s: local sort of the chunk not found" % fn.loc)
+    names = sorted(set(s[0]["callee"]["name"] for s in livesorts))
+    bad = False
+    undecided = None
+    if st == "true":
+        for x, own, lv in livesorts:
+            if x["callee"]["name"] in STABLE_SORTS:
+                continue
+            if own and lv == "live":
+                ck.violation("STABLE-PROPAGATE", fn.qname, tag + ":local-sort", "the stable variant sorts its chunk with %s" % [x["callee"]["name"]], fn.nloc(x))
+                bad = True
+            else:
+                undecided = und(fn, x, "std::%s in the stable variant: %s" % (x["callee"]["name"], "reached under a condition that is not a compile-time constant"
+                                                                                  if own else "sorted range not identified"))
+        for m, lv in merges:
+            if lv == "dead":
+                continue
+            nm = m["callee"]["name"]
+            sm = merge_stability(m)
+            if sm is None:
+                undecided = und(fn, m, "stability of %s not known" % nm)
+            elif not sm and lv == "live":
+                ck.violation("STABLE-PROPAGATE", fn.qname, tag + ":merge", "the stable variant merges the sorted chunks with the unstable %s" %
+                             (nm + ("<%s>" % m["callee"]["targs"][0] if nm.endswith("_base") else "")), fn.nloc(m))
+                bad = True
+            elif not sm:
+                undecided = und(fn, m, "unstable %s in the stable variant under a condition that is not a compile-time constant" % nm)
+    if bad:
+        return
+    if undecided is not None:
+        raise undecided
+    ck.ok("STABLE-PROPAGATE", tag, "local sort %s, merge %s" % (names, [m["callee"]["name"] + "<" + ",".join(m["callee"].get("targs", [])[:2]) + ">"
+                                                                          for m, lv in merges if lv != "dead"]))
 
 
+def calls_reaching(tu, f, name, depth=0, seen=None):
+    """calls of `name` in f and in the project functions / lambdas f hands control to"""
+    seen = seen if seen is not None else set()
+    if f is None or f.did in seen or depth > 4:
+        return []
+    seen.add(f.did)
+    out = []
+    for c in f.nodes():
+        if "callee" in c and c["callee"]["name"] == name:
+            out.append((f, c))
+        elif "callee" in c and (c["callee"].get("qname") or "").startswith("tlx::") and c["k"] in ("CallExpr", "CXXMemberCallExpr"):
+            cal = tu.by_did.get(c["callee"].get("did"))
+            if cal is not None and cal.body is not None:
+                out += calls_reaching(tu, cal, name, depth + 1, seen)
+        if c["k"] == "LambdaExpr":
+            out += calls_reaching(tu, tu.by_did.get(c.get("fn")), name, depth + 1, seen)
+    return out
+
+
+def fork_join_shape(tu, fn):
+    """rules.parcommon.check_fork_join reads one shape of the fork/join skeleton (two counted for loops over the same printed
+    bound, the thread object indexed by the loop variable, the loop variable among the captures of the thread lambda) and
+    reports every deviation; a skeleton it does not read is Undecidable here, not a violation"""
+    spawns, joins = [], []
+    for x in fn.nodes():
+        b = match.binop(x, ("=",))
+        if b and "callee" in strip_casts(x) and any(y["k"] == "LambdaExpr" for y in ir.walk(b[2])):
+            p = match.index_parts(b[1])
+            if p and ref_of(p[0]) is not None and "thread" in (strip_casts(b[2]).get("ty") or ""):
+                spawns.append((x, p))
+        if "callee" in x and x["callee"]["name"] == "join" and "thread" in (x["callee"].get("record") or ""):
+            joins.append(x)
+    if len(spawns) != 1 or len(joins) != 1:
+        return                             # check_fork_join answers Undecidable itself
+    L = Locals(tu, fn)
+
+    def counted(node, what):
+        lp = fn.parent(node)
+        while lp is not None and lp["k"] not in LOOPS:
+            lp = fn.parent(lp)
+        if lp is None or lp["k"] != "ForStmt":
+            raise und(fn, node, "%s: not inside a for loop" % what)
+        init, cond, inc, body = match.loop_parts(lp)
+        var = [y for y in ir.walk(init) if y["k"] == "VarDecl"] if init is not None else []
+        b = match.binop(cond, ("<", "!=")) if cond is not None else None
+        if len(var) != 1 or not kids(var[0]) or const_int(kids(var[0])[0]) is None or not b or ref_of(b[1]) != var[0]["did"]:
+            raise und(fn, lp, "%s: loop is not of the form for (i = c; i < n; ...)" % what)
+        u = match.unop(inc, ("++",)) if inc is not None else None
+        ws = L.writes.get(var[0]["did"], [])
+        if not u or ref_of(u[1]) != var[0]["did"] or len(ws) != 1:
+            raise und(fn, lp, "%s: loop variable is not advanced by ++ only" % what)
+        return var[0]["did"], b[2], lp
+    vs, bs, ls = counted(spawns[0][0], "thread start")
+    vj, bj, lj = counted(joins[0], "thread join")
+    if dtable.describe(bs) != dtable.describe(bj):
+        # written differently: evidence only if both are linear in the same quantities and differ by a constant
+        from engine import linear
+        lin = linear.Lin(fn, cfgm.CFG(fn))
+        fs, fj = lin.form(bs, ls), lin.form(bj, lj)
+        if fs is None or fj is None or fs[0] != fj[0] or fs[1] == fj[1]:
+            raise und(fn, lj, "bounds of the start loop and the join loop are written differently: %s / %s" % (dtable.describe(bs), dtable.describe(bj)))
+
+    def index_read(idx, var, node, what):
+        """the subscript is the loop variable itself, or provably something else (another variable, a constant)"""
+        if ref_of(idx) == var:
+            return
+        r = L.resolve(match.strip_conv(idx))
+        if ref_of(r) == var or (ref_of(r) is None and const_int(r) is None):
+            raise und(fn, node, "%s is not indexed by the loop variable itself: %s" % (what, dtable.describe(idx)[:60]))
+    index_read(spawns[0][1][1], vs, spawns[0][0], "the thread object")
+    jp = match.index_parts(kids(joins[0])[0])
+    if not jp or ref_of(jp[0]) is None:
+        raise und(fn, joins[0], "joined thread object is not an element of a named container")
+    index_read(jp[1], vj, joins[0], "the joined thread object")
+    lam = [y for y in ir.walk(spawns[0][0]) if y["k"] == "LambdaExpr"][0]
+    if not any(c.get("id") == vs for c in lam.get("captures", [])):
+        raise und(fn, lam, "the thread lambda does not capture the loop variable: how it learns its index is not understood")
+
+
+def check_worker_variant(ck, tu, fn, tag):
+    lam_calls = []
+    for x in fn.nodes():
+        if x["k"] == "LambdaExpr":
+            lam_calls += [c for _, c in calls_reaching(tu, tu.by_did.get(x.get("fn")), "parallel_sort_mwms_pu")]
+    if not lam_calls:
+        raise dtable.Undecidable("%s: no call of parallel_sort_mwms_pu found in the worker lambdas" % fn.loc)
+    wrong = [c for c in lam_calls if (c["callee"].get("targs") or [None])[0] != fn.targs[0]]
+    if wrong and (wrong[0]["callee"].get("targs") or [None])[0] not in ("true", "false"):
+        raise und(fn, wrong[0], "Stable flag of the worker call not read")
+    if not wrong:
+        ck.ok("STABLE-PROPAGATE", tag, "workers run parallel_sort_mwms_pu<%s>" % fn.targs[0], nontrivial=False)
+    else:
+        ck.violation("STABLE-PROPAGATE", fn.qname, tag + ":worker", "workers do not run the variant with the same Stable flag", fn.loc)
+
+
+def check_front(ck, tu, q, st):
+    fn = tu.one(qname=q)
+    L = Locals(tu, fn)
+    c = [x for _, x in calls_reaching(tu, fn, "parallel_mergesort_base") if _ is fn]
+    if len(c) != 1:
+        raise dtable.Undecidable("%s: %d direct calls of parallel_mergesort_base in %s" % (fn.loc, len(c), q))
+    c = c[0]
+    flag = (c["callee"].get("targs") or [None])[0]
+    if flag not in ("true", "false"):
+        raise und(fn, c, "Stable flag of the call not read")
+    pdids = [p["did"] for p in fn.params]
+
+    def arg_param(a):
+        a = L.resolve(match.strip_conv(a))
+        for _ in range(4):
+            if a is not None and std_call(a, ("move", "forward")) and kids(a):
+                a = L.resolve(match.strip_conv(kids(a)[0]))
+        return ref_of(a)
+    args = [arg_param(a) for a in kids(c)]
+    swapped = [i for i, d in enumerate(args) if d in pdids and i < len(pdids) and d != pdids[i]]
+    if flag != st or swapped:
+        ck.violation("STABLE-PROPAGATE", q, "front", "%s must call parallel_mergesort_base<%s> with its parameters" % (q, st), fn.loc)
+    elif args != pdids:
+        raise und(fn, c, "arguments of parallel_mergesort_base are not the parameters of %s one by one" % q)
+    else:
+        ck.ok("STABLE-PROPAGATE", q, "-> parallel_mergesort_base<%s>, parameters forwarded" % st, nontrivial=False)
+
+
+# ------------------------------------------------------------------------------------------------ split positions
 def check_equally_split(ck, tu):
     """SPLIT-INDEX-BOUND: equally_split() is pure integer code; it is evaluated for n = 1..12, p = 1..6: the p + 1 positions
     written are 0, ..., n with the interior ones equal to the even split clamped to n - 1 (determine_samples() uses them as
     element indices)"""
-    from engine import skel
     for fn in tu.some(qname="tlx::multiway_merge_detail::equally_split"):
-        BASE = 1000
+        ck.require(len(fn.params) == 3, "%s: equally_split(n, p, s) expected" % fn.loc)
+        BASE_ = 1000
         bad = None
         for n in range(1, 13):
             for p in range(1, 7):
-                sk = skel.Skel(fn, {fn.params[0]["did"]: n, fn.params[1]["did"]: p, fn.params[2]["did"]: BASE}, None, None, max_iter=32)
+                sk = skel.Skel(fn, {fn.params[0]["did"]: n, fn.params[1]["did"]: p, fn.params[2]["did"]: BASE_}, None, None, max_iter=32)
                 try:
                     sk.run(kids(fn.body))
                     ret = None
                 except skel.Return as r_:
                     ret = r_.v
-                got = [sk.env.get(("mem", BASE + i)) for i in range(p + 1)]
-                extra = [k_ for k_ in sk.env if isinstance(k_, tuple) and k_[0] == "mem" and not (BASE <= k_[1] <= BASE + p)]
+                got = [sk.env.get(("mem", BASE_ + i)) for i in range(p + 1)]
+                extra = [k_ for k_ in sk.env if isinstance(k_, tuple) and k_[0] == "mem" and not (BASE_ <= k_[1] <= BASE_ + p)]
+                if any(not isinstance(v, int) or isinstance(v, bool) for v in got) or not isinstance(ret, int) or \
+                        any(not isinstance(sk.env[k_], int) for k_ in extra):
+                    raise dtable.Undecidable("%s: equally_split(n = %d, p = %d) not evaluated on the integer skeleton (positions %s, returns %s)" % (fn.loc, n, p, got, ret))
                 want = [min(i * (n // p) + min(i, n % p), n - 1) for i in range(p)] + [n]
-                if (got != want or extra or ret != BASE + p + 1) and bad is None:
+                if (got != want or extra or ret != BASE_ + p + 1) and bad is None:
                     bad = (n, p, got, want, ret, extra)
         if bad:
             n, p, got, want, ret, extra = bad
@@ -285,19 +1512,71 @@ def check_equally_split(ck, tu):
         else:
             ck.ok("SPLIT-INDEX-BOUND", "equally_split<%s>" % fn.targs[0], "n = 1..12, p = 1..6: positions 0 .. n, interior ones the even split clamped to n - 1")
     for fn in tu.some(qname="tlx::parallel_mergesort_detail::determine_samples"):
-        # the samples read es[i + 1] for i < num_samples, i.e. interior positions only
-        rd = [x for x in fn.nodes() if match.index_parts(x) and ir.ref_name(match.index_parts(x)[0]) == "es" and x["k"] in ("CXXOperatorCallExpr", "ArraySubscriptExpr")]
-        okk = False
-        for x in rd:
-            b = match.binop(match.index_parts(x)[1], ("+",))
-            if b and const_int(b[2]) == 1:
-                okk = True
-        if okk:
-            ck.ok("SPLIT-INDEX-BOUND", "determine_samples", "reads interior split positions es[i + 1], i < num_samples", nontrivial=False)
-        else:
-            ck.violation("SPLIT-INDEX-BOUND", fn.qname, "index", "determine_samples does not read the interior split positions", fn.loc)
+        check_sample_reads(ck, fn)
 
 
+def check_sample_reads(ck, fn):
+    """determine_samples() is evaluated on its integer skeleton (every free integer = 2): the split positions it reads as
+    element indices are es[0 .. p - 1] of the p + 1 positions equally_split() wrote; es[p] holds n, one past the chunk"""
+    state = {"p": None, "es": None, "reads": []}
+
+    def unknown(e, sk):
+        e0 = strip_casts(e)
+        ty = (e0.get("ty") or "").replace("const ", "").strip() if e0 is not None else ""
+        if e0 is not None and e0["k"] == "DeclRefExpr" and ty in ("unsigned long", "long", "int", "unsigned int", "size_t", "unsigned long long", "long long"):
+            return 2
+        return None
+
+    def event(e, sk):
+        if "callee" in e and e["callee"]["name"] == "equally_split":
+            args = [a for a in kids(e) if a is not None]
+            if len(args) != 3 or state["p"] is not None:
+                raise und(fn, e, "call of equally_split not understood")
+            state["p"] = sk.ev(args[1])
+            a2 = match.strip_conv(args[2])
+            b = match.call_named(a2, ("begin", "data"))
+            state["es"] = ref_of(kids(b)[0]) if b is not None and kids(b) else (ref_of(a2) if a2 is not None else None)
+            if state["es"] is None and a2 is not None and a2["k"] == "UnaryOperator" and a2.get("op") == "&":
+                ip = match.index_parts(kids(a2)[0])
+                state["es"] = ref_of(ip[0]) if ip and const_int(ip[1]) == 0 else None
+            return None
+        if state["es"] is not None and e["k"] in ("ArraySubscriptExpr", "CXXOperatorCallExpr", "CXXMemberCallExpr"):
+            ip = match.index_parts(e)
+            if ip and ref_of(ip[0]) == state["es"]:
+                state["reads"].append((sk.ev(ip[1]), e))
+                return None
+        if state["es"] is not None and e["k"] == "DeclRefExpr" and e["ref"]["id"] == state["es"]:
+            par = fn.parent(e)
+            while par is not None and par["k"] in ("ImplicitCastExpr",):
+                par = fn.parent(par)
+            ip = match.index_parts(par) if par is not None else None
+            if not (ip and ref_of(ip[0]) == state["es"]) and not (par is not None and "callee" in par and par["callee"]["name"] == "equally_split") \
+                    and not (par is not None and "callee" in par and par["callee"]["name"] in ("begin", "data") and "callee" in (fn.parent(par) or {}) and
+                             fn.parent(par)["callee"]["name"] == "equally_split"):
+                raise und(fn, e, "the split positions are read in a way that is not understood")
+        return NotImplemented
+    sk = skel.Skel(fn, {}, unknown, event, max_iter=32)
+    try:
+        sk.run(kids(fn.body))
+    except skel.Return:
+        pass
+    p = state["p"]
+    if not isinstance(p, int) or state["es"] is None:
+        raise dtable.Undecidable("%s: call of equally_split / its output range not found" % fn.loc)
+    if not state["reads"]:
+        raise dtable.Undecidable("%s: no read of the split positions found" % fn.loc)
+    if any(not isinstance(k_, int) for k_, _ in state["reads"]):
+        raise und(fn, [e for k_, e in state["reads"] if not isinstance(k_, int)][0], "index of a split position not evaluated")
+    over = [(k_, e) for k_, e in state["reads"] if k_ >= p or k_ < 0]
+    if over:
+        ck.violation("SPLIT-INDEX-BOUND", fn.qname, "index", "determine_samples does not read the interior split positions: with %d parts it reads position %d "
+                     "(the end of the chunk) as an element index" % (p, over[0][0]), fn.nloc(over[0][1]))
+    else:
+        ks = sorted(set(k_ for k_, _ in state["reads"]))
+        ck.ok("SPLIT-INDEX-BOUND", "determine_samples", "reads split positions %s of 0..%d as element indices, never the end position" % (ks, p), nontrivial=False)
+
+
+# ------------------------------------------------------------------------------------------------ driver
 def run(ck):
     ck.explanation = (
         "Sortedness / permutation depend on values and on C05, C08. Decided here: TEMP-DESTROY (every element copy-constructed into the raw "
@@ -311,31 +1590,40 @@ def run(ck):
         tu = ir.extract("witness/C06_parallel_mergesort.cpp", defines=["WITNESS_T=" + t])
         for fn in tu.some(qname=PU):
             tag = "parallel_sort_mwms_pu<%s>" % fn.targs[0]
-            r = check_temp_destroy(ck, fn, tag)
-            check_barriers(ck, fn, tag, list(r) if r else [None])
-            check_stable(ck, tu, fn, tag)
+            ctx = {}
+
+            def prepare(fn=fn, ctx=ctx):
+                ctx["R"] = Roles(tu, fn)
+                ctx["g"] = cfgm.CFG(fn)
+                ctx["life"] = Life(ctx["R"], ctx["g"])
+                ctx["waits"] = None
+            ck.guarded(prepare)
+            if "life" not in ctx:
+                continue
+            ctx["free"] = ctx["life"].dels + ctx["life"].dtor_ops
+
+            def temp(fn=fn, tag=tag, ctx=ctx):
+                ctx["free"] = check_temp_destroy(ck, tu, fn, tag, ctx["R"], ctx["life"])
+            ck.guarded(temp)
+
+            def waits(fn=fn, ctx=ctx):
+                ctx["waits"] = barrier_waits(fn, ctx["R"])
+                ck.require(len(ctx["waits"]) >= 3, "%s: barrier waits not found" % fn.loc)
+            ck.guarded(waits)
+            if ctx["waits"] is not None:
+                ck.guarded(lambda fn=fn, tag=tag, ctx=ctx: check_barrier_balance(ck, fn, tag, ctx["R"], ctx["waits"]))
+                ck.guarded(lambda fn=fn, tag=tag, ctx=ctx: check_barrier_phases(ck, tu, fn, tag, ctx["R"], ctx["g"], ctx["waits"], ctx["free"]))
+            ck.guarded(lambda fn=fn, tag=tag, ctx=ctx: check_stable(ck, tu, fn, tag, ctx["R"], ctx["life"]))
         for fn in tu.some(qname=BASE):
             tag = "parallel_mergesort_base<%s>" % fn.targs[0]
-            check_fork_join(ck, tu, fn, tag)
-            pus = [c for c in tu.by_did.values() if False]
-            lam_calls = []
-            for x in fn.nodes():
-                if x["k"] == "LambdaExpr":
-                    lf = tu.by_did.get(x.get("fn"))
-                    if lf:
-                        lam_calls += [c for c in lf.nodes() if "callee" in c and c["callee"]["name"] == "parallel_sort_mwms_pu"]
-            if lam_calls and all(c["callee"]["targs"][0] == fn.targs[0] for c in lam_calls):
-                ck.ok("STABLE-PROPAGATE", tag, "workers run parallel_sort_mwms_pu<%s>" % fn.targs[0], nontrivial=False)
-            else:
-                ck.violation("STABLE-PROPAGATE", fn.qname, tag + ":worker", "workers do not run the variant with the same Stable flag", fn.loc)
+            def fork_join(fn=fn, tag=tag):
+                fork_join_shape(tu, fn)
+                check_fork_join(ck, tu, fn, tag)
+            ck.guarded(fork_join)
+            ck.guarded(lambda fn=fn, tag=tag: check_worker_variant(ck, tu, fn, tag))
         for q, st in (("tlx::parallel_mergesort", "false"), ("tlx::stable_parallel_mergesort", "true")):
-            fn = tu.one(qname=q)
-            c = [x for x in fn.nodes() if "callee" in x and x["callee"]["name"] == "parallel_mergesort_base"]
-            if len(c) == 1 and c[0]["callee"]["targs"][0] == st and [ref_of(a) for a in kids(c[0])] == [p["did"] for p in fn.params]:
-                ck.ok("STABLE-PROPAGATE", q, "-> parallel_mergesort_base<%s>, parameters forwarded" % st, nontrivial=False)
-            else:
-                ck.violation("STABLE-PROPAGATE", q, "front", "%s must call parallel_mergesort_base<%s> with its parameters" % (q, st), fn.loc)
-        check_equally_split(ck, tu)
+            ck.guarded(lambda q=q, st=st: check_front(ck, tu, q, st))
+        ck.guarded(lambda: check_equally_split(ck, tu))
         from rules import c09
         from rules.parcommon import check_comp_threaded_all
         nct = check_comp_threaded_all(ck, tu, ("tlx::parallel_mergesort_detail::", "tlx::multiway_merge_detail::", "tlx::parallel_"))
